@@ -1,5 +1,13 @@
 """C16 — interactive / multi-party schemes (DESIGN §3 C16).
 
+Sections of this file, each `impl` / `oracles` / `generators/run` (their own headers say more):
+  musig2     BIP327 MuSig2 with btclib's adaptor extension (correspondence + oracles)          run_musig
+  twoparty   ECDH, ANSI-X9.63 / HKDF, BIP374 DLEQ (correspondence with Model/C16/Dleq.lean)     run_twoparty
+  realcode   property oracles on the real code alone: ECDH, DLEQ, ECIES, ElligatorSwift, Pedersen,
+             Borromean, silent payments sender -> scanner, BIP352 / BIP324 vectors            run_realcode
+  sp         BIP352 silent payments (correspondence with Model/C16/SilentPayments.lean)        run_sp
+  psbt       BIP373 / BIP375 roles over a PSBT, on the real code                               run_psbt
+
 Section `musig2` (this file, below): BIP327 MuSig2 with btclib's adaptor extension, `btclib/ecc/musig2.py`.
 
 Correspondence streams (model `lean/Model/C16/Musig2.lean` through `drv_c16` vs the real btclib, same op lines).
@@ -252,6 +260,12 @@ def impl(line: str) -> str:
     t = line.split(" ")
     if t[0].startswith("musig.") or t[0].startswith("bip340."):
         return _impl_musig(t)
+    if t[0].startswith("dh.") or t[0].startswith("kdf.") or t[0].startswith("dleq."):
+        return _impl_twoparty(t)
+    if t[0].startswith("sp."):
+        return _impl_sp(t)
+    if t[0].startswith("pedersen."):
+        return _impl_pedersen(t)
     return "bad-op"
 
 
@@ -1106,6 +1120,1799 @@ def run_musig(ctx):
     run_oracles(ctx, rng)
 
 
+# ========================================================================================================
+# Two-party schemes: ECDH (btclib/ecc/dh.py), KDFs (btclib/kdf.py), DLEQ (btclib/ecc/dleq.py, BIP374).
+# Correspondence with lean/Model/C16/Dleq.lean through `drv_c16` (`twoParty`), both backends:
+#   dh.x963 <curve> <dU> <Qx> <Qy> <size> <info|None>         kdf.x963 <z> <size> <info|None>
+#   kdf.hkdf <ikm> <size> <salt|None> <info|None>              kdf.hkdf_expand <prk> <size> <info|None>
+#   dleq.gen <a> <Bx> <By> <aux> <Gx> <Gy> <msg|None>          dleq.verify <A> <B> <C> <proof> <G> <msg|None>
+# streams: dh.x963, dh.x963.inf / dh.x963.xrange (Python arm only: see run_realcode's notes), kdf.x963, kdf.hkdf,
+# kdf.hkdf_expand, dleq.gen, dleq.verify, dleq.malformed, dleq.vectors (BIP374 csv files of /repo/tests).
+# ========================================================================================================
+import base64  # noqa: E402
+import csv  # noqa: E402
+import random as _random  # noqa: E402
+from hashlib import sha256  # noqa: E402
+
+from btclib import kdf  # noqa: E402
+from btclib.curves import CURVES  # noqa: E402
+from btclib.ecc import dh, dleq  # noqa: E402
+
+RULE += ("; two-party schemes: ECDH on 15 catalogue curves (scalars 0, n, negative, above n; peers at infinity, off "
+         "the curve, of low order on the cofactor curves), ANSI-X9.63 / HKDF with sizes 0, negative, 1..8161 and "
+         "beyond the ceiling, honest BIP374 proofs over random generators and their mutations (bit flips, s >= n, "
+         "messages of wrong size, swapped / off-curve / infinite points, proofs of wrong size) and the BIP374 csv "
+         "vectors; property oracles on the real code for ECDH, DLEQ, ECIES, ElligatorSwift, Pedersen, Borromean, "
+         "silent payments (random input sets and recipient lists, BIP352 vectors) and the BIP373/BIP375 PSBT roles")
+TRUSTED += ["Model/C16/Dleq.lean is a hand transcription of dh.py / kdf.py / dleq.py tied by correspondence only",
+            "ECIES is exercised with a toy padding stream cipher (btclib takes the cipher as a parameter)"]
+
+
+# ---- twoparty: impl ------------------------------------------------------------------------------------
+def _impl_twoparty(t) -> str:  # noqa: PLR0911
+    op, a = t[0], t[1:]
+    try:
+        if op == "dh.x963" and len(a) == 6:
+            ec = CURVES.get(a[0])
+            if ec is None:
+                return "bad-op"
+            d, q, size, info = int(a[1]), (int(a[2]), int(a[3])), int(a[4]), p_opt(a[5])
+            return _call(lambda: hx(dh.diffie_hellman(d, q, size, info, ec, sha256)))
+        if op == "kdf.x963" and len(a) == 3:
+            z, size, info = unhx(a[0]), int(a[1]), p_opt(a[2])
+            return _call(lambda: hx(kdf.ansi_x9_63_kdf(z, size, sha256, info)))
+        if op == "kdf.hkdf" and len(a) == 4:
+            ikm, size, salt, info = unhx(a[0]), int(a[1]), p_opt(a[2]), p_opt(a[3])
+            return _call(lambda: hx(kdf.hkdf(ikm, size, sha256, salt, info)))
+        if op == "kdf.hkdf_expand" and len(a) == 3:
+            prk, size, info = unhx(a[0]), int(a[1]), p_opt(a[2])
+            return _call(lambda: hx(kdf.hkdf_expand(prk, size, sha256, info)))
+        if op == "dleq.gen" and len(a) == 7:
+            av, b, aux = int(a[0]), (int(a[1]), int(a[2])), unhx(a[3])
+            g, msg = (int(a[4]), int(a[5])), p_opt(a[6])
+            return _call(lambda: hx(dleq.generate_proof(av, b, aux, g, msg)))
+        if op == "dleq.verify" and len(a) == 10:
+            pa, pb, pc = (int(a[0]), int(a[1])), (int(a[2]), int(a[3])), (int(a[4]), int(a[5]))
+            proof, g, msg = unhx(a[6]), (int(a[7]), int(a[8])), p_opt(a[9])
+
+            def f():
+                dleq.assert_proof_as_valid(pa, pb, pc, proof, g, msg)
+                return "valid"
+            return _call(f)
+    except ValueError:  # a token that does not parse
+        return "bad-op"
+    return "bad-op"
+
+
+# ---- twoparty: generators/run --------------------------------------------------------------------------
+DH_CURVES = ["secp256k1", "secp256k1", "secp256k1", "secp256r1", "secp112r1", "secp112r2", "secp128r1", "secp128r2",
+             "secp160k1", "secp160r1", "secp192k1", "secp224k1", "bpp160r1", "bpp256r1", "secp384r1", "secp521r1"]
+KDF_SIZES = [0, -1, -32, 1, 2, 31, 32, 33, 63, 64, 65, 255 * 32, 255 * 32 + 1]
+X963_MAX = 32 * (2**32 - 1)
+
+
+def g_scalar(rng, ec) -> int:
+    return 1 + rng.getrandbits(ec.nlen + 16) % (ec.n - 1)
+
+
+def g_point(rng, ec):
+    return mult(g_scalar(rng, ec), ec.G, ec)
+
+
+def g_info(rng):
+    r = rng.random()
+    if r < 0.35:
+        return None
+    if r < 0.45:
+        return b""
+    return common.rand_bytes(rng, rng.choice([1, 4, 16, 32, 33, 64, 100]))
+
+
+def low_order_point(rng, ec):
+    """a point of the curve outside the prime-order subgroup times n (cofactor curves): order divides h"""
+    for _ in range(64):
+        x = rng.randrange(ec.p)
+        try:
+            r = (x, ec.y_even_var(x))
+        except Exception:  # noqa: BLE001 - x is no x-coordinate
+            continue
+        return ec.add_var(mult(ec.n - 1, r, ec), r)
+    return ec.G
+
+
+def _dh_is_inf_divergent(ec, d, q) -> bool:
+    """the lines on which the two arithmetic backends answer with different error classes"""
+    return ec == secp256k1 and q[1] == 0 and d % ec.n != 0
+
+
+def _dh_is_xrange_divergent(ec, d, q) -> bool:
+    """an x-coordinate outside 0..p-1 that is a valid one modulo p: the bindings arm leaves through OverflowError
+    while serialising the peer, the Python arm (and the model) reduce it silently"""
+    return ec == secp256k1 and not 0 <= q[0] < ec.p and d % ec.n != 0
+
+
+def gen_dh(ctx, rng, n):
+    lines, inf_lines, xr_lines = [], [], []
+
+    def add(cls, name, d, q, size, info):
+        ctx.count("dh.class", cls)
+        ec = CURVES[name]
+        line = f"dh.x963 {name} {d} {q[0]} {q[1]} {size} {t_opt(info)}"
+        if _dh_is_inf_divergent(ec, d, q):
+            inf_lines.append(line)
+        elif _dh_is_xrange_divergent(ec, d, q):
+            xr_lines.append(line)
+        else:
+            lines.append(line)
+
+    for q in ((secp256k1.G[0], 0), (0, 0), (5, 0)):
+        for d in (1, g_scalar(rng, secp256k1), N - 1, N + 1, 0, N):
+            add("peer_infinity", "secp256k1", d, q, 32, None)
+    qk = g_point(rng, secp256k1)
+    for dx in (P, -P, 2 * P):
+        for d in (1, g_scalar(rng, secp256k1), 0):
+            add("peer_x_range", "secp256k1", d, (qk[0] + dx, qk[1]), 32, None)
+
+    for name in sorted(set(DH_CURVES)):  # both parties of one exchange, on every curve used
+        ec = CURVES[name]
+        a, b = g_scalar(rng, ec), g_scalar(rng, ec)
+        size, info = rng.choice([16, 32, 48]), g_info(rng)
+        add("pair", name, a, mult(b, ec.G, ec), size, info)
+        add("pair", name, b, mult(a, ec.G, ec), size, info)
+    for _ in range(n):
+        name = rng.choice(DH_CURVES)
+        ec = CURVES[name]
+        q = g_point(rng, ec)
+        d = g_scalar(rng, ec)
+        size = rng.choice([1, 8, 16, 20, 31, 32, 33, 48, 64, 65, 100])
+        r = rng.random()
+        if r < 0.50:
+            add("valid", name, d, q, size, g_info(rng))
+        elif r < 0.68:
+            dd = rng.choice([0, ec.n, ec.n + 1, 2 * ec.n, -1, -d, d + ec.n, d - ec.n, 2**256 + d, 1, 2, ec.n - 1, -ec.n])
+            add("scalar_edge", name, dd, q, size, g_info(rng))
+        elif r < 0.76:
+            add("size_edge", name, d, q, rng.choice([0, -1, -32, X963_MAX + 1, 2**40, 2**64]), g_info(rng))
+        elif r < 0.84:
+            qq = rng.choice([(q[0], 0), (0, 0), (5, 0), (ec.G[0], 0)])
+            add("peer_infinity", name, rng.choice([d, d, 0, ec.n, 1]), qq, size, g_info(rng))
+        elif r < 0.93:
+            qq = rng.choice([(q[0], q[1] % ec.p + 1), (q[0] + 1, q[1]), (q[1], q[0]), (q[0], ec.p - q[1]), (q[0], -q[1]),
+                             (q[0], q[1] + ec.p), (q[0], ec.p), (0, 1), (1, 1), (q[0] + ec.p, q[1]), (q[0] - ec.p, q[1]),
+                             (-q[0], q[1]), ec.G])
+            add("peer_odd", name, rng.choice([d, d, 0, 1]), qq, size, g_info(rng))
+        else:
+            name = rng.choice(["secp112r2", "secp128r2"])
+            ec = CURVES[name]
+            add("peer_low_order", name, rng.choice([1, 2, 3, 4, 8, ec.n + 4, g_scalar(rng, ec)]), low_order_point(rng, ec),
+                size, g_info(rng))
+    return lines, inf_lines, xr_lines
+
+
+def gen_kdf(ctx, rng, n):
+    by = {"kdf.x963": [], "kdf.hkdf": [], "kdf.hkdf_expand": []}
+    sizes = list(KDF_SIZES)
+    for i in range(n):
+        size = sizes[i] if i < len(sizes) else rng.choice([rng.randrange(1, 300), rng.randrange(1, 300), rng.choice(KDF_SIZES)])
+        z = common.rand_bytes(rng, rng.choice([0, 1, 14, 20, 32, 32, 33, 48, 66, 80]))
+        by["kdf.x963"].append(f"kdf.x963 {hx(z)} {rng.choice([size, size, X963_MAX + 1]) if i >= len(sizes) else size} "
+                              f"{t_opt(g_info(rng))}")
+        salt = rng.choice([None, b"", common.rand_bytes(rng, rng.choice([1, 32, 64, 65, 100]))])
+        by["kdf.hkdf"].append(f"kdf.hkdf {hx(z)} {size} {t_opt(salt)} {t_opt(g_info(rng))}")
+        prk = common.rand_bytes(rng, rng.choice([32, 32, 32, 33, 64, 65, 100, 31, 16, 0]))
+        by["kdf.hkdf_expand"].append(f"kdf.hkdf_expand {hx(prk)} {size} {t_opt(g_info(rng))}")
+    # the ceilings themselves
+    by["kdf.x963"] += [f"kdf.x963 {'ab' * 32} {s} None" for s in (X963_MAX + 1, 2**63, -2**63)]
+    by["kdf.hkdf"] += [f"kdf.hkdf {'ab' * 32} {s} None {'cd' * 3}" for s in (8159, 8160, 8161, 2**32)]
+    by["kdf.hkdf_expand"] += [f"kdf.hkdf_expand {'ab' * 32} {s} _" for s in (8159, 8160, 8161, 2**32)]
+    return by
+
+
+def _dleq_case(rng):
+    """an honest statement and its proof, made with the real code"""
+    ec = secp256k1
+    a = g_prv(rng)
+    g = ec.G if rng.random() < 0.3 else g_point(rng, ec)
+    b = g_point(rng, ec)
+    aux = common.rand_bytes(rng, 32) if rng.random() < 0.9 else rng.choice([bytes(32), b"\xff" * 32])
+    msg = None if rng.random() < 0.35 else common.rand_bytes(rng, 32)
+    proof = dleq.generate_proof(a, b, aux, g, msg)
+    return {"a": a, "G": g, "B": b, "aux": aux, "msg": msg, "proof": proof, "A": mult(a, g, ec), "C": mult(a, b, ec)}
+
+
+def _l_gen(a, b, aux, g, msg) -> str:
+    return f"dleq.gen {a} {b[0]} {b[1]} {hx(aux)} {g[0]} {g[1]} {t_opt(msg)}"
+
+
+def _l_ver(pa, pb, pc, proof, g, msg) -> str:
+    return f"dleq.verify {pa[0]} {pa[1]} {pb[0]} {pb[1]} {pc[0]} {pc[1]} {hx(proof)} {g[0]} {g[1]} {t_opt(msg)}"
+
+
+def gen_dleq(ctx, rng, n):  # noqa: PLR0915
+    gen_l, ver_l, bad = [], [], []
+
+    def add(cls, line):
+        ctx.count("dleq.malformed_class", cls)
+        bad.append(line)
+
+    ec = secp256k1
+    for _ in range(n):
+        c = _dleq_case(rng)
+        a, g, b, aux, msg, proof, pa, pc = (c[k] for k in ("a", "G", "B", "aux", "msg", "proof", "A", "C"))
+        pb = b
+        ctx.count("dleq.case", ("default G" if g == ec.G else "random G") + (" msg" if msg else " no msg"))
+        gen_l.append(_l_gen(a, b, aux, g, msg))
+        ver_l.append(_l_ver(pa, pb, pc, proof, g, msg))
+        e, s = proof[:32], proof[32:]
+        other, other2 = g_point(rng, ec), g_point(rng, ec)
+        # -- altered proofs
+        add("flip_e", _l_ver(pa, pb, pc, _flip(e, rng.randrange(256)) + s, g, msg))
+        add("flip_s", _l_ver(pa, pb, pc, e + _flip(s, rng.randrange(256)), g, msg))
+        sv = rng.choice([N, N + 1, 2**256 - 1, int.from_bytes(s, "big") + N if int.from_bytes(s, "big") + N < 2**256 else N])
+        add("s>=n", _l_ver(pa, pb, pc, e + sv.to_bytes(32, "big"), g, msg))
+        add("s_edge", _l_ver(pa, pb, pc, e + rng.choice([0, 1, N - 1]).to_bytes(32, "big"), g, msg))
+        add("e_edge", _l_ver(pa, pb, pc, rng.choice([bytes(32), b"\xff" * 32, N.to_bytes(32, "big")]) + s, g, msg))
+        add("neg_s", _l_ver(pa, pb, pc, e + ((N - int.from_bytes(s, "big")) % N).to_bytes(32, "big"), g, msg))
+        bp = rng.choice([proof[:63], proof + b"\x00", b"", proof[:32], proof + proof])
+        add("proof_size", _l_ver(pa, pb, pc, bp, g, msg))
+        # -- altered message
+        m2 = common.rand_bytes(rng, 32)
+        add("other_msg", _l_ver(pa, pb, pc, proof, g, m2 if msg is None else rng.choice([m2, None, _flip(msg, rng.randrange(256))])))
+        bm = common.rand_bytes(rng, rng.choice([0, 1, 31, 33, 64]))
+        add("msg_size", _l_ver(pa, pb, pc, proof, g, bm))
+        add("msg_size", _l_gen(a, b, aux, g, bm))
+        # -- altered statement
+        pts = {"A": pa, "B": pb, "C": pc, "G": g}
+        which = rng.choice("ABCG")
+        for cls, repl in (("other_point", other), ("negated", (pts[which][0], P - pts[which][1])),
+                          ("swapped", pts[rng.choice([k for k in "ABCG" if k != which])]),
+                          ("off_curve", rng.choice([(pts[which][0], pts[which][1] % P + 1), (pts[which][0] + 1, pts[which][1]),
+                                                    (0, 1), (pts[which][0], pts[which][1] + P), (pts[which][0], -pts[which][1]),
+                                                    (pts[which][0] + P, pts[which][1])])),
+                          ("infinity", rng.choice([(pts[which][0], 0), (0, 0), (5, 0)]))):
+            q = dict(pts)
+            q[which] = repl
+            add(cls + ":" + which, _l_ver(q["A"], q["B"], q["C"], proof, q["G"], msg))
+        add("all_other", _l_ver(other, other2, pc, proof, g, msg))
+        # -- generation refusals
+        av = rng.choice([0, N, N + 1, -1, -a, a + N, 2**256, 2**256 + a])
+        add("a_range", _l_gen(av, b, aux, g, msg))
+        add("a_edge", _l_gen(rng.choice([1, 2, N - 1, N - 2]), b, aux, g, msg))
+        add("aux_size", _l_gen(a, b, common.rand_bytes(rng, rng.choice([0, 1, 31, 33, 64])), g, msg))
+        for cls, repl in (("gen_off_curve", (b[0], b[1] % P + 1)), ("gen_infinity", rng.choice([(b[0], 0), (0, 0)])),
+                          ("gen_y_range", rng.choice([(b[0], b[1] + P), (b[0], -b[1])]))):
+            if rng.random() < 0.5:
+                add(cls + ":B", _l_gen(a, repl, aux, g, msg))
+            else:
+                add(cls + ":G", _l_gen(a, b, aux, repl, msg))
+        add("gen_B=G", _l_gen(a, g, aux, g, msg))
+        add("gen_B=A", _l_gen(a, pa, aux, g, msg))
+    valid = gen_l + ver_l
+    for _ in range(n * 3):
+        base = rng.choice(valid).split(" ")
+        i = rng.randrange(1, len(base))
+        if base[i] == "None":
+            base[i] = common.rand_bytes(rng, 32).hex()
+        elif base[0] == "dleq.gen" and i == 4 or base[0] == "dleq.verify" and i == 7 or i == len(base) - 1:
+            base[i] = _mut_hex(rng, base[i])
+        else:
+            v = int(base[i])
+            base[i] = str(rng.choice([v + 1, v - 1, v ^ (1 << rng.randrange(256)), P - v, N - v, -v, v + P]))
+        add("mutated:" + base[0], " ".join(base))
+    # canonical coordinates only (0 <= x < p): a point tuple whose x is outside the field but valid modulo p passes
+    # point_from_pub_key (is_on_curve range-checks y alone) and leaves generate_proof / assert_proof_as_valid through
+    # OverflowError from bytes_from_point -- an exception-class matter on invalid input, not C16's (noted in run_twoparty)
+    xr = [ln for ln in bad if _dleq_xrange(ln)]
+    bad = [ln for ln in bad if not _dleq_xrange(ln)]
+    return gen_l, ver_l, bad, xr
+
+
+def _dleq_xrange(line) -> bool:
+    """some point of the line has an x-coordinate outside 0..p-1 (not streamed: see gen_dleq)"""
+    t = line.split(" ")
+    pos = (2, 5) if t[0] == "dleq.gen" else (1, 3, 5, 8)
+    try:
+        return any(not 0 <= int(t[i]) < P for i in pos)
+    except (ValueError, IndexError):
+        return False
+
+
+def gen_dleq_vectors(ctx):
+    """the BIP374 csv files as op lines"""
+    out = []
+
+    def pt(h):
+        if h == "INFINITY":
+            return (0, 0)
+        return point_from_octets(bytes.fromhex(h), secp256k1)
+
+    try:
+        with open(os.path.join(_DATA, "test_vectors_generate_proof.csv"), encoding="utf8", newline="") as f:
+            for row in list(csv.reader(f))[1:]:
+                _i, g, a, b, aux, msg, _proof, _c = row
+                out.append(_l_gen(int(a, 16), pt(b), bytes.fromhex(aux), pt(g), bytes.fromhex(msg) if msg else None))
+                ctx.count("dleq.vectors", "generate")
+        with open(os.path.join(_DATA, "test_vectors_verify_proof.csv"), encoding="utf8", newline="") as f:
+            for row in list(csv.reader(f))[1:]:
+                _i, g, pa, pb, pc, proof, msg, _ok, _c = row
+                out.append(_l_ver(pt(pa), pt(pb), pt(pc), bytes.fromhex(proof), pt(g), bytes.fromhex(msg) if msg else None))
+                ctx.count("dleq.vectors", "verify")
+    except Exception as e:  # noqa: BLE001 - a vendored file that moved is a note, not a failure
+        ctx.note(f"dleq.vectors: BIP374 vector files not (fully) replayed: {type(e).__name__}: {e}")
+    return out
+
+
+def twoparty_corpus(ctx):
+    path = os.path.join(common.ROOT, "corpus", "C16", "twoparty.json")
+    if not os.path.exists(path):
+        return []
+    try:
+        with open(path, encoding="utf8") as f:
+            return [c["op"] for c in json.load(f)]
+    except (OSError, ValueError, KeyError, TypeError) as e:
+        ctx.note(f"twoparty.corpus not replayed: {type(e).__name__}: {e}")
+        return []
+
+
+def run_twoparty(ctx):
+    rng = ctx.rng
+    _stream_both(ctx, "twoparty.corpus", twoparty_corpus(ctx))
+    prev = _curve.is_libsecp256k1_serving()
+    try:
+        _curve.set_libsecp256k1_serving(serving=_libsecp256k1.INSTALLED)
+        dh_lines, dh_inf, dh_xr = gen_dh(ctx, rng, ctx.n(110, 2500))
+        kdf_by = gen_kdf(ctx, rng, ctx.n(40, 800))
+        gen_l, ver_l, bad, dleq_xr = gen_dleq(ctx, rng, ctx.n(14, 400))
+        vectors = gen_dleq_vectors(ctx)
+    finally:
+        _curve.set_libsecp256k1_serving(serving=prev)
+    _stream_both(ctx, "dh.x963", dh_lines)
+    # a peer at infinity on secp256k1 with a non-zero scalar: the two arms differ in the error class (the bindings arm
+    # refuses while serialising the peer, BTClibValueError; the Python arm multiplies and refuses the shared point,
+    # BTClibRuntimeError, which is what the model transcribes). Compared on the Python arm only; the difference itself
+    # is an observation about invalid input, noted (with its reproducer) by run_realcode.
+    # An x-coordinate outside 0..p-1 (valid modulo p) is the same story: OverflowError on the bindings arm, reduced
+    # silently on the Python arm and in the model; noted by run_realcode as well.
+    with backend(False):
+        ctx.correspond("dh.x963.inf@python", EXE, [(ln, impl(ln)) for ln in dh_inf], key="dh.x963.inf@python")
+        ctx.correspond("dh.x963.xrange@python", EXE, [(ln, impl(ln)) for ln in dh_xr], key="dh.x963.xrange@python")
+    for name in sorted(kdf_by):
+        ctx.stream(name, kdf_by[name])  # no curve arithmetic: one backend
+    _stream_both(ctx, "dleq.gen", gen_l)
+    _stream_both(ctx, "dleq.verify", ver_l)
+    _stream_both(ctx, "dleq.malformed", bad)
+    _stream_both(ctx, "dleq.vectors", vectors)
+    if dleq_xr:
+        ctx.note(f"dleq: {len(dleq_xr)} generated lines with an x-coordinate outside 0..p-1 were not streamed (observation, "
+                 "invalid input: dleq.generate_proof(5, (x + p, y), bytes(32)) for (x, y) = mult(7) raises OverflowError, "
+                 "not a BTClib error, on both arms)")
+
+
+# ========================================================================================================
+# Property oracles on the REAL code alone for the two-party schemes and silent payments (no model involved):
+#   dh.symmetry, dh.inf_backend_agreement, dh.xrange_backend_agreement, dleq.complete_and_sound, ecies.roundtrip,
+#   ellswift.roundtrip, pedersen.commit_verify, borromean.sign_verify, sp.sender_scanner, sp.backend_agreement,
+#   sp.vectors, sp.output_keys.order, sp.scan.offcurve
+# Witnesses are JSON (ints, hex strings); `serving` selects the arithmetic backend where there is a switch.
+# ========================================================================================================
+from btclib import silent_payments as sp  # noqa: E402
+from btclib.ecc import borromean, ecies, ellswift, pedersen  # noqa: E402
+from btclib.hashes import hash160  # noqa: E402
+from btclib.script.witness import Witness  # noqa: E402
+from btclib.tx.out_point import OutPoint  # noqa: E402
+
+_SP_VECTORS = "/repo/tests/_data/send_and_receive_test_vectors.json"
+
+
+def _refuses(f):
+    """(refused, class): f() raised an exception of the library (value / type / runtime)"""
+    try:
+        f()
+    except Exception as e:  # noqa: BLE001 - the class is the observation
+        c = common.err_class(e)
+        return (not c.startswith("foreign")), (c if not c.startswith("foreign") else f"foreign:{type(e).__name__}")
+    return False, "answered"
+
+
+def _other_backend(serving):
+    for _tag, s in backends():
+        if s != bool(serving):
+            return s
+    return None
+
+
+# ---- realcode: oracles ---------------------------------------------------------------------------------
+def _o_dh_symmetry(w):
+    ec = CURVES[w["curve"]]
+    info = None if w["info"] is None else bytes.fromhex(w["info"])
+    with backend(w["serving"]):
+        try:
+            pa, pb = mult(w["a"], ec.G, ec), mult(w["b"], ec.G, ec)
+            ka = dh.diffie_hellman(w["a"], pb, w["size"], info, ec, sha256)
+            kb = dh.diffie_hellman(w["b"], pa, w["size"], info, ec, sha256)
+        except Exception as e:  # noqa: BLE001
+            return False, f"honest exchange raised {type(e).__name__}: {str(e)[:100]}"
+        if ka != kb:
+            return False, f"the two parties derive different keys: {ka.hex()} / {kb.hex()}"
+        if len(ka) != w["size"]:
+            return False, f"keying data of {len(ka)} bytes for size {w['size']}"
+        # the secret is the x-coordinate of a*b*G under the KDF
+        s = mult(w["a"] * w["b"], ec.G, ec)
+        if ka != kdf.ansi_x9_63_kdf(s[0].to_bytes(ec.p_size, "big"), w["size"], sha256, info):
+            return False, "the key is not the KDF of the x-coordinate of a*b*G"
+        c = w["c"]
+        if c % ec.n not in (w["b"] % ec.n, -w["b"] % ec.n):
+            kc = dh.diffie_hellman(c, pa, w["size"], info, ec, sha256)
+            if kc == ka and w["size"] >= 8:
+                return False, "a third party with another key derives the same keying data"
+    return True, f"{w['curve']} size {w['size']}"
+
+
+def _o_dh_inf(w):
+    """diffie_hellman on a peer at infinity must be answered with the same exception class by both arms"""
+    got = {}
+    for tag, serving in backends():
+        with backend(serving):
+            _r, got[tag] = _refuses(lambda: dh.diffie_hellman(w["d"], (w["qx"], 0), 32, None, secp256k1, sha256))
+    if len(set(got.values())) > 1:
+        return False, "diffie_hellman(d, INF) on secp256k1: " + ", ".join(f"{k} arm -> {v}" for k, v in sorted(got.items()))
+    return True, f"both arms: {got}"
+
+
+def _o_dh_xrange(w):
+    """diffie_hellman on a peer whose x-coordinate is x+k*p must be answered the same way by both arms"""
+    got = {}
+    for tag, serving in backends():
+        with backend(serving):
+            try:
+                got[tag] = "ok " + dh.diffie_hellman(w["d"], (w["qx"], w["qy"]), 32, None, secp256k1, sha256).hex()
+            except Exception as e:  # noqa: BLE001
+                got[tag] = f"{type(e).__name__}"
+    if len(set(got.values())) > 1:
+        return False, ("diffie_hellman(d, (x+k*p, y)) on secp256k1: "
+                       + ", ".join(f"{k} arm -> {v}" for k, v in sorted(got.items())))
+    return True, f"both arms: {got}"
+
+
+def _o_dleq(w):  # noqa: PLR0911, PLR0912
+    ec = secp256k1
+    with backend(w["serving"]):
+        try:
+            g = ec.G if w["g"] is None else mult(w["g"], ec.G, ec)
+            b = mult(w["b"], ec.G, ec)
+            aux = bytes.fromhex(w["aux"])
+            msg = None if w["msg"] is None else bytes.fromhex(w["msg"])
+            a = w["a"]
+            proof = dleq.generate_proof(a, b, aux, g, msg)
+            pa, pc = mult(a, g, ec), mult(a, b, ec)
+            if len(proof) != 64:
+                return False, f"proof of {len(proof)} bytes"
+            if not dleq.verify_proof(pa, b, pc, proof, g, msg):
+                return False, "the honest proof is refused for the statement it was made for"
+            dleq.assert_proof_as_valid(pa, b, pc, proof, g, msg)
+            # the same statement in compressed-octets spelling
+            if not dleq.verify_proof(bytes_from_point(pa, ec), bytes_from_point(b, ec), bytes_from_point(pc, ec), proof,
+                                     bytes_from_point(g, ec), msg):
+                return False, "the honest proof is refused when the points are given as octets"
+            if dleq.generate_proof(a, b, aux, g, msg) != proof:
+                return False, "generate_proof is not deterministic for a given aux"
+            other = mult(w["o"], ec.G, ec)
+            msg2 = bytes.fromhex(w["msg2"])
+            alts = {"A": (other, b, pc, g, msg), "B": (pa, other, pc, g, msg), "C": (pa, b, other, g, msg),
+                    "G": (pa, b, pc, other, msg), "msg": (pa, b, pc, g, msg2 if msg2 != msg else None),
+                    "-A": (ec.negate(pa), b, pc, g, msg), "-C": (pa, b, ec.negate(pc), g, msg),
+                    "A<->C": (pc, b, pa, g, msg), "B<->G": (pa, g, pc, b, msg),
+                    "no msg" if msg is not None else "a msg": (pa, b, pc, g, None if msg is not None else msg2)}
+            for name, (xa, xb, xc, xg, xm) in alts.items():
+                if (xa, xb, xc, xg, xm) == (pa, b, pc, g, msg):
+                    continue
+                if other in (pa, b, pc, g) and name in "ABCG":
+                    continue
+                if dleq.verify_proof(xa, xb, xc, proof, xg, xm):
+                    return False, f"the proof verifies for an altered statement ({name} altered)"
+            # a proof for another secret does not verify for this statement
+            a2 = w["o"]
+            if a2 % N != a % N:
+                p2 = dleq.generate_proof(a2, b, aux, g, msg)
+                if dleq.verify_proof(pa, b, pc, p2, g, msg):
+                    return False, "a proof made with another secret verifies for this statement"
+            bad = _flip(proof, w["bit"])
+            if dleq.verify_proof(pa, b, pc, bad, g, msg):
+                return False, f"the proof with bit {w['bit'] % 512} flipped verifies"
+        except Exception as e:  # noqa: BLE001
+            return False, f"DLEQ session raised {type(e).__name__}: {str(e)[:100]}"
+    return True, "proof verifies; 10 altered statements refused"
+
+
+def _toy_stream(key: bytes, iv: bytes, n: int) -> bytes:
+    out, c = b"", 0
+    while len(out) < n:
+        out += sha256(key + iv + c.to_bytes(4, "big")).digest()
+        c += 1
+    return out[:n]
+
+
+def _toy_encrypt(key: bytes, iv: bytes, msg: bytes) -> bytes:
+    """a padding stream cipher standing in for AES-128-CBC/PKCS7 (ecies takes the cipher as a parameter)"""
+    pad = 16 - len(msg) % 16
+    data = msg + bytes([pad]) * pad
+    return bytes(x ^ y for x, y in zip(data, _toy_stream(key, iv, len(data))))
+
+
+def _toy_decrypt(key: bytes, iv: bytes, ct: bytes) -> bytes:
+    data = bytes(x ^ y for x, y in zip(ct, _toy_stream(key, iv, len(ct))))
+    pad = data[-1] if data else 0
+    if not 1 <= pad <= 16 or data[-pad:] != bytes([pad]) * pad:
+        raise ValueError("toy cipher: bad padding")  # not a BTClib error: a tampered envelope must not get here
+    return data[:-pad]
+
+
+def _o_ecies(w):  # noqa: PLR0911, PLR0912
+    m = bytes.fromhex(w["m"])
+    sk, eph, other = w["sk"], w["eph"], w["other"]
+    with backend(w["serving"]):
+        try:
+            pk = mult(sk)
+            pk_arg = pk if w["pk_form"] == "point" else bytes_from_point(pk, secp256k1, compressed=w["pk_form"] == "c")
+            armor = ecies.encrypt(m, pk_arg, _toy_encrypt, eph_prv_key=eph)
+            got = ecies.decrypt(armor, sk, _toy_decrypt)
+        except Exception as e:  # noqa: BLE001
+            return False, f"honest encrypt/decrypt raised {type(e).__name__}: {str(e)[:100]}"
+        if got != m:
+            return False, f"decrypt(encrypt(m)) = {got.hex()} for m = {m.hex()}"
+        try:
+            env = ecies.Envelope.b64decode(armor)
+            raw = env.serialize()
+            if ecies.Envelope.parse(raw) != env or ecies.Envelope.parse(raw).serialize() != raw or env.b64encode() != armor:
+                return False, "Envelope parse / serialize / base64 do not round-trip"
+            if raw[:4] != ecies.MAGIC or raw[4:37] != bytes_from_point(mult(eph), secp256k1) or len(raw) != 4 + 33 + 32 + (
+                    len(m) // 16 + 1) * 16:
+                return False, "envelope layout is not magic | ephemeral key | ciphertext | MAC"
+            ka, kb = ecies.derive_keys(eph, pk), ecies.derive_keys(sk, mult(eph))
+            if ka != kb:
+                return False, "derive_keys differs between sender and recipient"
+        except Exception as e:  # noqa: BLE001
+            return False, f"envelope handling raised {type(e).__name__}: {str(e)[:100]}"
+        if other % N not in (sk % N,):
+            ok, cls = _refuses(lambda: ecies.decrypt(armor, other, _toy_decrypt))
+            if not ok:
+                return False, f"decrypting with another private key: {cls}"
+        nbits = 8 * len(raw)
+        bits = range(nbits) if w["bits"] == "all" else [b % nbits for b in w["bits"]] + [
+            8 * 3 + w["bits"][0] % 8, 8 * 4 + w["bits"][0] % 8, 8 * 37 + w["bits"][0] % 8, nbits - 1 - w["bits"][0] % 256]
+        for bit in bits:
+            bad = bytearray(raw)
+            bad[bit // 8] ^= 0x80 >> (bit % 8)
+            armor2 = base64.b64encode(bytes(bad)).decode("ascii")
+            ok, cls = _refuses(lambda a=armor2: ecies.decrypt(a, sk, _toy_decrypt))
+            if not ok:
+                region = "magic" if bit < 32 else "ephemeral key" if bit < 8 * 37 else "MAC" if bit >= nbits - 256 \
+                    else "ciphertext"
+                return False, f"envelope with bit {bit} ({region}) flipped: {cls}"
+    return True, f"{len(m)}-byte message, {len(list(bits))} flipped bits refused"
+
+
+ELL_CURVES = ["secp256k1", "secp256k1", "secp256k1", "secp160k1", "secp192k1", "secp224k1"]
+
+
+def _o_ellswift(w):  # noqa: PLR0911, PLR0912, PLR0915
+    kind = w["kind"]
+    ec = CURVES[w.get("curve", "secp256k1")]
+    with backend(w["serving"]):
+        try:
+            if kind == "encode":
+                q = w["q"]
+                pt = mult(q, ec.G, ec)
+                for form in ("point", "octets"):
+                    ell = ellswift.encode_var(pt if form == "point" else bytes_from_point(pt, ec), ec)
+                    if len(ell) != 2 * ec.p_size:
+                        return False, f"encoding of {len(ell)} bytes"
+                    back = ellswift.decode_var(ell, ec)
+                    if back[0] != pt[0]:
+                        return False, f"decode_var(encode_var(P)) has x {back[0]}, P has x {pt[0]} (encoding {ell.hex()})"
+                    if back != pt:
+                        return False, f"decode_var(encode_var(P)) has the other y (encoding {ell.hex()})"
+                ell = ellswift.create_var(q, ec)
+                if ellswift.decode_var(ell, ec) != pt:
+                    return False, f"decode_var(create_var(q)) is not q*G (encoding {ell.hex()})"
+                return True, "encode/create then decode"
+            if kind == "decode":  # a fixed encoding decodes to the same point on both arms, always on the curve
+                ell = bytes.fromhex(w["ell"])
+                pt = ellswift.decode_var(ell, ec)
+                if pt[1] == 0 or not ec.is_on_curve(pt):
+                    return False, f"decode_var answers {pt}, not a point of the curve"
+                size = ec.p_size
+                u, t = int.from_bytes(ell[:size], "big"), int.from_bytes(ell[size:], "big")
+                if pt[0] != ellswift._xswiftec_var(u, t, ec):
+                    return False, "decode_var disagrees with _xswiftec_var"
+                if (pt[1] % 2) != ((t % ec.p) % 2):
+                    return False, "decoded y parity is not t's"
+                ob = _other_backend(w["serving"])
+                if ob is not None:
+                    with backend(ob):
+                        pt2 = ellswift.decode_var(ell, ec)
+                    if pt2 != pt:
+                        return False, f"decode_var differs between the arms: {pt} / {pt2}"
+                if "x" in w and pt[0] != int(w["x"], 16):
+                    return False, f"BIP324 vector: decoded x {pt[0]:x}, expected {w['x']}"
+                return True, "decoded on the curve"
+            if kind == "inv":
+                u, x = w["u"], w["x"]
+                hits = 0
+                seen = set()
+                for c in range(8):
+                    t = ellswift._xswiftec_inv_var(x, u, c, ec)
+                    if "expect" in w:
+                        e = w["expect"][c]
+                        if (t is None) != (e is None) or (t is not None and t != int(e, 16)):
+                            return False, f"BIP324 vector: case {c} answers {t}, expected {e}"
+                    if t is None:
+                        continue
+                    hits += 1
+                    if not 0 <= t < ec.p:
+                        return False, f"case {c}: t outside the field"
+                    if t in seen:
+                        return False, f"case {c}: t repeats another case's"
+                    seen.add(t)
+                    got = ellswift._xswiftec_var(u, t, ec)
+                    if got != x % ec.p:
+                        return False, f"_xswiftec_var(u, _xswiftec_inv_var(x, u, {c})) = {got}, x = {x}"
+                return True, f"{hits} of 8 cases invert"
+            if kind == "xdh":
+                ell_a, ell_b = bytes.fromhex(w["ell_a"]), bytes.fromhex(w["ell_b"])
+                sa = ellswift.xdh(ell_a, ell_b, w["qa"], 0, ec)
+                sb = ellswift.xdh(ell_a, ell_b, w["qb"], 1, ec)
+                if sa != sb:
+                    return False, f"initiator derives {sa.hex()}, responder {sb.hex()}"
+                if len(sa) != 32:
+                    return False, f"secret of {len(sa)} bytes"
+                if ellswift.xdh(ell_b, ell_a, w["qb"], 0, ec) == sa and ell_a != ell_b:
+                    return False, "the secret does not depend on who initiated"
+                if w["qc"] % ec.n not in (w["qb"] % ec.n, -w["qb"] % ec.n) and ellswift.xdh(ell_a, ell_b, w["qc"], 1, ec) == sa:
+                    return False, "a third key derives the same secret"
+                ob = _other_backend(w["serving"])
+                if ob is not None:
+                    with backend(ob):
+                        if ellswift.xdh(ell_a, ell_b, w["qa"], 0, ec) != sa:
+                            return False, "xdh differs between the arms"
+                return True, "both parties derive the same secret"
+        except Exception as e:  # noqa: BLE001
+            return False, f"ellswift {kind} raised {type(e).__name__}: {str(e)[:100]}"
+    return False, f"unknown kind {kind}"
+
+
+def _o_pedersen(w):
+    ec = CURVES[w["curve"]]
+    r, v = w["r"], w["v"]
+    with backend(w["serving"]):
+        try:
+            c = pedersen.commit(r, v, ec, sha256)
+            if c[1] == 0 or not ec.is_on_curve(c):
+                return False, f"commitment {c} is not a point of the curve"
+            if not pedersen.verify(r, v, c, ec, sha256):
+                return False, "verify refuses the opening the commitment was made with"
+            pedersen.assert_as_valid(r, v, c, ec, sha256)
+            h = pedersen.second_generator(ec, sha256)
+            if c != ec.add_var(mult(r, ec.G, ec), mult(v, h, ec)):
+                return False, "commit(r, v) is not r*G + v*H"
+            if w["dr"] % ec.n and pedersen.verify(r + w["dr"], v, c, ec, sha256):
+                return False, "verify accepts an altered blinding factor"
+            if w["dv"] % ec.n and pedersen.verify(r, v + w["dv"], c, ec, sha256):
+                return False, "verify accepts an altered value"
+            if pedersen.verify(r, v, ec.negate(c), ec, sha256):
+                return False, "verify accepts the negated commitment"
+            if (r - v) % ec.n and pedersen.verify(v, r, c, ec, sha256):
+                return False, "verify accepts (v, r) for commit(r, v)"
+            # additively homomorphic
+            c2 = pedersen.commit(w["dr"], w["dv"], ec, sha256) if (w["dr"] % ec.n or w["dv"] % ec.n) else None
+            if c2 is not None and (r + w["dr"]) % ec.n | (v + w["dv"]) % ec.n:
+                s = ec.add_var(c, c2)
+                if s[1] != 0 and not pedersen.verify(r + w["dr"], v + w["dv"], s, ec, sha256):
+                    return False, "commit(r1, v1) + commit(r2, v2) does not open to (r1 + r2, v1 + v2)"
+        except Exception as e:  # noqa: BLE001
+            return False, f"pedersen raised {type(e).__name__}: {str(e)[:100]}"
+    return True, w["curve"]
+
+
+def _o_borromean(w):  # noqa: PLR0911, PLR0912
+    ec = CURVES[w["curve"]]
+    msg = bytes.fromhex(w["msg"])
+    with backend(w["serving"]):
+        try:
+            rings = [[mult(d, ec.G, ec) for d in ring] for ring in w["rings"]]
+            idx = w["idx"]
+            keys = [w["rings"][i][idx[i]] for i in range(len(rings))]
+            sig = borromean.sign(msg, w["ks"], idx, keys, rings, ec, sha256)
+            if not borromean.verify(msg, sig, rings, ec, sha256):
+                return False, "verify refuses the honest ring signature"
+            borromean.assert_as_valid(msg, sig, rings, ec, sha256)
+            if [len(r) for r in sig.s] != [len(r) for r in rings]:
+                return False, "the signature's shape is not the rings'"
+            if ec == secp256k1:
+                raw = sig.serialize()
+                if not borromean.verify(msg, raw, rings, ec, sha256):
+                    return False, "verify refuses the serialised honest signature"
+                if borromean.BorromeanSig.parse(raw, [len(r) for r in rings]) != sig:
+                    return False, "BorromeanSig parse(serialize) is not the identity"
+            msg2 = bytes.fromhex(w["msg2"])
+            if msg2 != msg and borromean.verify(msg2, sig, rings, ec, sha256):
+                return False, "the signature verifies for another message"
+            i = w["alt_ring"] % len(rings)
+            j = w["alt_pos"] % len(rings[i])
+            s2 = [list(r) for r in sig.s]
+            s2[i][j] = (s2[i][j] + 1 + w["delta"] % (ec.n - 1)) % ec.n
+            try:
+                if borromean.verify(msg, borromean.BorromeanSig(sig.e0, s2, ec), rings, ec, sha256):
+                    return False, f"the signature with s[{i}][{j}] altered verifies"
+            except Exception as e:  # noqa: BLE001
+                if common.err_class(e).startswith("foreign"):
+                    return False, f"a signature with s[{i}][{j}] altered raised {type(e).__name__}"
+            e0 = _flip(sig.e0, w["delta"])
+            if borromean.verify(msg, borromean.BorromeanSig(e0, sig.s, ec), rings, ec, sha256):
+                return False, "the signature with e0 altered verifies"
+            rings2 = [list(r) for r in rings]
+            rings2[i][j] = mult(w["outsider"], ec.G, ec)
+            if rings2[i][j] != rings[i][j] and borromean.verify(msg, sig, rings2, ec, sha256):
+                return False, f"the signature verifies with ring key [{i}][{j}] replaced"
+            if len(rings) > 1 and rings[0] != rings[-1]:
+                swapped = [rings[-1]] + rings[1:-1] + [rings[0]]
+                if [len(r) for r in swapped] == [len(r) for r in rings] and borromean.verify(msg, sig, swapped, ec, sha256):
+                    return False, "the signature verifies with two rings exchanged"
+            # a signer outside its ring cannot produce a verifying signature
+            keys2 = list(keys)
+            keys2[i] = w["outsider"]
+            if mult(w["outsider"], ec.G, ec) != rings[i][idx[i]]:
+                try:
+                    forged = borromean.sign(msg, w["ks"], idx, keys2, rings, ec, sha256)
+                    if borromean.verify(msg, forged, rings, ec, sha256):
+                        return False, "a signature made with a key outside the ring verifies"
+                except Exception as e:  # noqa: BLE001
+                    if common.err_class(e).startswith("foreign"):
+                        return False, f"signing with an outsider key raised {type(e).__name__}"
+        except Exception as e:  # noqa: BLE001
+            return False, f"borromean raised {type(e).__name__}: {str(e)[:100]}"
+    return True, f"{len(w['rings'])} rings of sizes {[len(r) for r in w['rings']]}"
+
+
+# -- silent payments
+_SP_SIG = b"\x30" + bytes(70)
+
+
+def _sp_input(kind: str, prv: int):
+    """(script_pub_key, script_sig, witness) of a signed input of the given type spending a key's output"""
+    pt = mult(prv)
+    c = bytes_from_point(pt, secp256k1)
+    if kind == "p2wpkh":
+        return b"\x00\x14" + hash160(c), b"", Witness([_SP_SIG, c])
+    if kind == "p2pkh":
+        return b"\x76\xa9\x14" + hash160(c) + b"\x88\xac", bytes([len(_SP_SIG)]) + _SP_SIG + bytes([33]) + c, None
+    if kind == "p2sh-p2wpkh":
+        redeem = b"\x00\x14" + hash160(c)
+        return b"\xa9\x14" + hash160(redeem) + b"\x87", bytes([len(redeem)]) + redeem, Witness([_SP_SIG, c])
+    if kind == "p2tr":
+        return b"\x51\x20" + c[1:], b"", Witness([bytes(64)])
+    if kind == "p2tr-annex":
+        return b"\x51\x20" + c[1:], b"", Witness([bytes(64), b"\x50\x01"])
+    raise ValueError(kind)
+
+
+class _SpTx:
+    """sender and scanners of one witness, built with the real code under the current backend"""
+
+    def __init__(self, w):
+        self.w = w
+        self.prv_keys, self.pub_keys = [], []
+        for kind, prv in w["inputs"]:
+            spk, ssig, wit = _sp_input(kind, prv)
+            pk = sp.pub_key_from_input(spk, ssig, wit)
+            if pk is None:
+                raise ValueError(f"pub_key_from_input skips an eligible {kind} input")
+            self.prv_keys.append((prv, spk))
+            self.pub_keys.append((pk, spk))
+        self.outpoints = [OutPoint(bytes.fromhex(t), v) for t, v in w["outpoints"]]
+        self.wallets = w["wallets"]
+        self.addresses = []
+        for wi, m in w["recipients"]:
+            b_scan, b_spend, _labels = self.wallets[wi]
+            self.addresses.append(sp.address_from_keys(mult(b_scan), mult(b_spend)) if m is None
+                                  else sp.labeled_address_from_keys(b_scan, mult(b_spend), m))
+
+    def pay(self):
+        return sp.output_keys(self.prv_keys, self.outpoints, self.addresses)
+
+    def scan(self, b_scan, b_spend_pub, labels, outputs, full):
+        lab = sp.label_lookup(b_scan, sorted(set(labels) | {0}))
+        if full:
+            return sp.scan_transaction_outputs(b_scan, b_spend_pub, self.outpoints, self.pub_keys, outputs, lab)
+        tweak = sp.tweak_data(self.outpoints, sp.pub_key_sum([pk for pk, _ in self.pub_keys]))
+        return sp.scan_outputs(b_scan, b_spend_pub, tweak, outputs, lab)
+
+
+def _found_set(found):
+    return sorted((o.pub_key.hex(), o.prv_key_tweak) for o in found)
+
+
+def _o_sp_sender_scanner(w):  # noqa: PLR0911, PLR0912
+    with backend(w["serving"]):
+        try:
+            tx = _SpTx(w)
+            # the sum the scanner sees is the sum the sender used (taproot keys negated to even y)
+            a = sp.prv_key_sum(tx.prv_keys)
+            if mult(a) != sp.pub_key_sum([pk for pk, _ in tx.pub_keys]):
+                return False, "prv_key_sum * G is not pub_key_sum of the inputs' public keys"
+            keys = tx.pay()
+            if len(keys) != len(tx.addresses):
+                return False, f"{len(keys)} output keys for {len(tx.addresses)} addresses"
+            if len(set(keys)) != len(keys):
+                return False, "two recipients are paid on the same output key"
+            decoys = [bytes.fromhex(d) for d in w["decoys"]]
+            outputs = keys + decoys
+            _random.Random(w["shuffle"]).shuffle(outputs)
+            claimed: dict[bytes, int] = {}
+            for wi, (b_scan, b_spend, labels) in enumerate(tx.wallets):
+                want = sum(1 for r, _m in w["recipients"] if r == wi)
+                light = tx.scan(b_scan, mult(b_spend), labels, outputs, full=False)
+                full = tx.scan(b_scan, mult(b_spend), labels, outputs, full=True)
+                if _found_set(light) != _found_set(full):
+                    return False, (f"wallet {wi}: scan_outputs finds {_found_set(light)}, scan_transaction_outputs "
+                                   f"{_found_set(full)}")
+                if len(full) != want:
+                    return False, f"wallet {wi} is paid {want} outputs and its scanner finds {len(full)}"
+                for o in full:
+                    if o.pub_key not in keys:
+                        return False, f"wallet {wi} claims an output the sender did not create ({o.pub_key.hex()})"
+                    if o.pub_key in claimed:
+                        return False, f"output {o.pub_key.hex()} is found by wallets {claimed[o.pub_key]} and {wi}"
+                    claimed[o.pub_key] = wi
+                    d = sp.prv_key_from_tweak(b_spend, o.prv_key_tweak)
+                    if mult(d)[0].to_bytes(32, "big") != o.pub_key:
+                        return False, f"wallet {wi}: b_spend + tweak does not open output {o.pub_key.hex()}"
+                # another order of the outputs: the same set
+                again = tx.scan(b_scan, mult(b_spend), labels, outputs[::-1], full=bool(w["shuffle"] % 2))
+                if _found_set(again) != _found_set(full):
+                    return False, f"wallet {wi}: the found set depends on the order of the outputs"
+            if set(claimed) != set(keys):
+                return False, f"{len(set(keys) - set(claimed))} created outputs are found by no scanner"
+            # a scanner holding another scan key finds nothing
+            b_scan0, b_spend0, labels0 = tx.wallets[0]
+            for full in (False, True):
+                if tx.scan(w["stranger"], mult(b_spend0), labels0, outputs, full=full):
+                    return False, "a scanner with another scan key finds an output"
+            # the outputs are bound to the transaction: another outpoint set, another set of keys
+            tx2 = _SpTx({**w, "outpoints": [[w["outpoints"][0][0], w["outpoints"][0][1] ^ 1]]})
+            if set(tx2.pay()) & set(keys):
+                return False, "another outpoint derives a same output key"
+        except Exception as e:  # noqa: BLE001
+            return False, f"silent payment round trip raised {type(e).__name__}: {str(e)[:120]}"
+    return True, f"{len(w['inputs'])} inputs, {len(w['recipients'])} recipients, {len(w['wallets'])} wallets"
+
+
+def _o_sp_backend_agreement(w):
+    """sender and full-node scanner answer the same on both arms (anything but the known off-curve refusal)"""
+    got = {}
+    for tag, serving in backends():
+        with backend(serving):
+            try:
+                tx = _SpTx(w)
+                keys = tx.pay()
+                outputs = keys + [bytes.fromhex(d) for d in w["decoys"]]
+                _random.Random(w["shuffle"]).shuffle(outputs)
+                found = [_found_set(tx.scan(bs, mult(bp), labels, outputs, full=True)) for bs, bp, labels in tx.wallets]
+                got[tag] = {"keys": [k.hex() for k in keys], "found": found}
+            except Exception as e:  # noqa: BLE001
+                got[tag] = {"raised": type(e).__name__}
+    vals = list(got.values())
+    if any(v != vals[0] for v in vals[1:]):
+        if all("keys" in v for v in vals) and any(v["keys"] != vals[0]["keys"] for v in vals[1:]):
+            what = "output_keys"
+        else:
+            what = "scan_transaction_outputs"
+        return False, f"{what} differs between the arms: " + json.dumps(got)[:600]
+    return True, f"{len(got)} arms agree"
+
+
+_SP_VEC_CACHE: list = []
+
+
+def _sp_vectors():
+    if not _SP_VEC_CACHE:
+        with open(_SP_VECTORS, encoding="utf8") as f:
+            _SP_VEC_CACHE.append(json.load(f))
+    return _SP_VEC_CACHE[0]
+
+
+def _vec_pub_key(v):
+    wit = Witness.parse(v["txinwitness"]) if v["txinwitness"] else None
+    return sp.pub_key_from_input(v["prevout"]["scriptPubKey"]["hex"], v["scriptSig"], wit)
+
+
+def _o_sp_vectors(w):  # noqa: PLR0911, PLR0912
+    case = _sp_vectors()[w["index"]]
+    test = case[w["part"]][w["i"]]
+    given, expected = test["given"], test["expected"]
+    with backend(w["serving"]):
+        try:
+            outpoints = [OutPoint(v["txid"], v["vout"]) for v in given["vin"]]
+            if w["part"] == "sending":
+                prv_keys = [(v["private_key"], v["prevout"]["scriptPubKey"]["hex"]) for v in given["vin"]
+                            if _vec_pub_key(v) is not None]
+                addresses = []
+                for r in given["recipients"]:
+                    addresses.extend([r["address"]] * r.get("count", 1))
+                if not prv_keys:
+                    return expected["outputs"] == [[]], "no eligible input"
+                try:
+                    keys = sp.output_keys(prv_keys, outpoints, addresses)
+                except Exception as e:  # noqa: BLE001
+                    if common.err_class(e) == "value" and expected["outputs"] == [[]]:
+                        return True, "refused as the vector expects"
+                    return False, f"output_keys raised {type(e).__name__}: {str(e)[:80]}"
+                found = {k.hex() for k in keys}
+                if not any(found == set(valid) for valid in expected["outputs"]):
+                    return False, f"output_keys answers {sorted(found)[:4]}.., none of the vector's valid sets"
+                return True, f"{len(keys)} outputs"
+            b_scan = given["key_material"]["scan_priv_key"]
+            b_spend = given["key_material"]["spend_priv_key"]
+            pub_keys = [(pk, v["prevout"]["scriptPubKey"]["hex"]) for v in given["vin"] if (pk := _vec_pub_key(v)) is not None]
+            if not pub_keys:
+                return expected["outputs"] == [], "no eligible input"
+            labels = sp.label_lookup(b_scan, given["labels"])
+            try:
+                a_sum = sp.pub_key_sum([pk for pk, _ in pub_keys])
+            except Exception as e:  # noqa: BLE001
+                return (common.err_class(e) == "value" and expected["outputs"] == []), "input keys sum to infinity"
+            tweak = sp.tweak_data(outpoints, a_sum)
+            light = sp.scan_outputs(b_scan, mult(b_spend), tweak, given["outputs"], labels)
+            full = sp.scan_transaction_outputs(b_scan, mult(b_spend), outpoints, pub_keys, given["outputs"], labels)
+            if _found_set(light) != _found_set(full):
+                return False, "scan_outputs and scan_transaction_outputs differ on a BIP352 vector"
+            if "n_outputs" in expected:
+                if len(full) != expected["n_outputs"]:
+                    return False, f"{len(full)} outputs found, the vector counts {expected['n_outputs']}"
+            elif _found_set(full) != sorted((o["pub_key"], int(o["priv_key_tweak"], 16)) for o in expected["outputs"]):
+                return False, f"found {_found_set(full)[:3]}.., the vector lists {len(expected['outputs'])} outputs"
+            for o in full[:8]:
+                if mult(sp.prv_key_from_tweak(b_spend, o.prv_key_tweak))[0].to_bytes(32, "big") != o.pub_key:
+                    return False, "b_spend + tweak does not open a found output"
+        except Exception as e:  # noqa: BLE001
+            return False, f"vector replay raised {type(e).__name__}: {str(e)[:120]}"
+    return True, case["comment"][:60]
+
+
+def _o_sp_output_order(w):
+    """`output_keys` documents `one key per address, in the order the addresses are given`: keys[i] must be
+    found by the scanner of addresses[i]"""
+    with backend(w["serving"]):
+        try:
+            tx = _SpTx(w)
+            keys = tx.pay()
+            for i, (wi, _m) in enumerate(w["recipients"]):
+                b_scan, b_spend, labels = tx.wallets[wi]
+                found = tx.scan(b_scan, mult(b_spend), labels, [keys[i]] if w.get("alone") else keys, full=False)
+                if keys[i] not in [o.pub_key for o in found]:
+                    owner = [wj for wj, (bs, bp, lb) in enumerate(tx.wallets)
+                             if keys[i] in [o.pub_key for o in tx.scan(bs, mult(bp), lb, keys, full=False)]]
+                    return False, (f"output_keys(...)[{i}] is not an output of addresses[{i}] (wallet {wi}): it is found by "
+                                   f"wallet {owner} -- the keys come back grouped by scan key, not in address order")
+        except Exception as e:  # noqa: BLE001
+            return False, f"raised {type(e).__name__}: {str(e)[:120]}"
+    return True, "keys[i] belongs to addresses[i]"
+
+
+def smallest_non_x() -> int:
+    x = 0
+    while True:
+        try:
+            secp256k1.y_even_var(x)
+        except Exception:  # noqa: BLE001
+            return x
+        x += 1
+
+
+def _o_sp_scan_offcurve(w):
+    """a 32-byte output that is no x-coordinate: both arms of scan_transaction_outputs must answer alike"""
+    got = {}
+    spk, _ssig, _wit = _sp_input("p2wpkh", w["a"])
+    for tag, serving in backends():
+        with backend(serving):
+            try:
+                found = sp.scan_transaction_outputs(w["b_scan"], mult(w["b_spend"]), [OutPoint(bytes.fromhex(w["txid"]), w["vout"])],
+                                                    [(mult(w["a"]), spk)], [x.to_bytes(32, "big") for x in w["outputs"]])
+                got[tag] = f"answers {_found_set(found)}"
+            except Exception as e:  # noqa: BLE001
+                got[tag] = f"raises {type(e).__name__}({str(e)[:60]!r})"
+    if len(set(got.values())) > 1:
+        return False, ("scan_transaction_outputs on an output that is no x-coordinate: "
+                       + "; ".join(f"{k} arm {v}" for k, v in sorted(got.items())))
+    return True, f"arms agree: {got}"
+
+
+ORACLES.update({"dh.symmetry": _o_dh_symmetry, "dh.inf_backend_agreement": _o_dh_inf,
+                "dh.xrange_backend_agreement": _o_dh_xrange, "dleq.complete_and_sound": _o_dleq,
+                "ecies.roundtrip": _o_ecies, "ellswift.roundtrip": _o_ellswift, "pedersen.commit_verify": _o_pedersen,
+                "borromean.sign_verify": _o_borromean, "sp.sender_scanner": _o_sp_sender_scanner,
+                "sp.backend_agreement": _o_sp_backend_agreement, "sp.vectors": _o_sp_vectors,
+                "sp.output_keys.order": _o_sp_output_order, "sp.scan.offcurve": _o_sp_scan_offcurve})
+
+
+# ---- realcode: generators/run --------------------------------------------------------------------------
+def _w_sp(rng, serving, small=False):
+    kinds = ["p2tr", "p2tr", "p2tr", "p2wpkh", "p2wpkh", "p2pkh", "p2sh-p2wpkh", "p2tr-annex"]
+    n_in = rng.choice([1, 1, 2, 2, 3] if small else [1, 2, 2, 3, 4, 5])
+    inputs = [[rng.choice(kinds), g_prv(rng)] for _ in range(n_in)]
+    if rng.random() < 0.15:
+        inputs = [["p2tr", d] for _k, d in inputs]  # taproot only: every key may need negating
+    n_out = rng.choice([1, 2, 3])
+    outpoints = [[common.rand_bytes(rng, 32).hex(), rng.choice([0, 1, 2, 7, 255, 256, 2**32 - 1])] for _ in range(n_in)]
+    if rng.random() < 0.2:
+        outpoints.append([outpoints[0][0], outpoints[0][1] ^ 4])  # an ineligible input's outpoint still counts
+    n_w = rng.choice([1, 2, 2] if small else [1, 2, 2, 3])
+    wallets = []
+    for _ in range(n_w):
+        labels = rng.sample([0, 1, 2, 3, 7, 1000, 2**32 - 1], rng.choice([0, 1, 2, 3]))
+        b_scan = g_prv(rng)
+        while any(b_scan in (x[0], N - x[0]) for x in wallets):  # one scan key is one recipient (one counter k)
+            b_scan = g_prv(rng)
+        wallets.append([b_scan, g_prv(rng), labels])
+    n_rec = rng.choice([1, 2, 3, 4] if small else [1, 2, 3, 4, 5, 6, 8])
+    recipients = []
+    for _ in range(n_rec):
+        wi = rng.randrange(n_w)
+        labels = wallets[wi][2]
+        m = rng.choice(labels) if labels and rng.random() < 0.5 else None
+        recipients.append([wi, m])
+    if n_rec >= 2 and rng.random() < 0.6:  # the same address several times: the counter k must advance
+        recipients[rng.randrange(n_rec)] = list(recipients[rng.randrange(n_rec)])
+    for wi in range(n_w):  # every wallet is paid at least once
+        if all(r != wi for r, _ in recipients):
+            recipients.append([wi, None])
+    decoys = []
+    for _ in range(n_out - 1 if small else n_out):
+        r = rng.random()
+        if r < 0.6:
+            decoys.append(mult(g_prv(rng))[0].to_bytes(32, "big").hex())
+        elif r < 0.8:
+            decoys.append(mult(wallets[0][1])[0].to_bytes(32, "big").hex())  # the bare spend key
+        else:  # a labelled spend key that was never tweaked by a shared secret
+            t = sp.label_tweak(wallets[0][0], 0)
+            decoys.append(mult((wallets[0][1] + t) % N or 1)[0].to_bytes(32, "big").hex())
+    return {"inputs": inputs, "outpoints": outpoints, "wallets": wallets, "recipients": recipients, "decoys": decoys,
+            "shuffle": rng.getrandbits(16), "stranger": 4 + rng.getrandbits(255) % (N - 8), "serving": serving}
+
+
+# fixed witnesses of the recorded backend / ordering observations (deterministic: no rng)
+W_SP_OFFCURVE = {"a": 1, "b_scan": 2, "b_spend": 3, "txid": "00" * 32, "vout": 0, "outputs": [5]}
+W_DH_INF = {"d": 1, "qx": 5}
+W_DH_XRANGE = {"d": 1, "qx": secp256k1.G[0] + P, "qy": secp256k1.G[1]}
+W_SP_ORDER = {"inputs": [["p2wpkh", 1]], "outpoints": [["00" * 32, 0]], "wallets": [[2, 3, []], [4, 5, []]],
+              "recipients": [[0, None], [1, None], [0, None]], "decoys": [], "shuffle": 0, "stranger": 6, "serving": False}
+
+
+def run_realcode(ctx):  # noqa: PLR0912, PLR0915
+    rng = ctx.rng
+    bs = backends()
+
+    def per(quick, thorough, serving):
+        """cases for one arm: the Python arithmetic gets half"""
+        n = ctx.n(quick, thorough)
+        return n if serving else max(2, n // 2)
+
+    # -- recorded observations (one deterministic witness each)
+    ctx.check("sp.scan.offcurve", dict(W_SP_OFFCURVE), key="sp.scan.offcurve_backend_divergence")
+    ctx.check("sp.scan.offcurve", {**W_SP_OFFCURVE, "outputs": [smallest_non_x()]}, key="sp.scan.offcurve_backend_divergence")
+    # two observations about exception classes on INVALID input (not C16's statement: noted with their reproducer,
+    # never raised as C16 findings; the inputs are kept out of the @bindings correspondence streams)
+    for name, wit, repro in (
+            ("dh.inf_backend_agreement", W_DH_INF, "dh.diffie_hellman(1, (5, 0), 32)"),
+            ("dh.xrange_backend_agreement", W_DH_XRANGE, "dh.diffie_hellman(1, (secp256k1.G[0] + secp256k1.p, secp256k1.G[1]), 32)")):
+        ok, detail = ORACLES[name](dict(wit))
+        if not ok:
+            ctx.note(f"{name} (observation, invalid input): {detail}; reproducer: {repro} under "
+                     "set_libsecp256k1_serving(serving=True) / (serving=False)")
+    ctx.check("sp.output_keys.order", dict(W_SP_ORDER), key="sp.output_keys.order_not_address_order")
+
+    for tag, serving in bs:
+        # -- ECDH symmetry on every curve used
+        names = sorted(set(DH_CURVES))
+        for i in range(per(40, 600, serving)):
+            name = names[i % len(names)] if i < len(names) else rng.choice(DH_CURVES)
+            ec = CURVES[name]
+            info = g_info(rng)
+            ctx.check("dh.symmetry", {"curve": name, "a": g_scalar(rng, ec), "b": g_scalar(rng, ec), "c": g_scalar(rng, ec),
+                                      "size": rng.choice([1, 16, 31, 32, 33, 64, 100]),
+                                      "info": None if info is None else info.hex(), "serving": serving})
+        # -- DLEQ
+        for _ in range(per(30, 500, serving)):
+            ctx.check("dleq.complete_and_sound",
+                      {"a": g_prv(rng), "b": g_prv(rng), "g": None if rng.random() < 0.3 else g_prv(rng), "o": g_prv(rng),
+                       "aux": common.rand_bytes(rng, 32).hex(), "msg": rng.choice([None, common.rand_bytes(rng, 32).hex()]),
+                       "msg2": common.rand_bytes(rng, 32).hex(), "bit": rng.randrange(512), "serving": serving})
+        # -- ECIES
+        for i in range(per(40, 500, serving)):
+            ln = [0, 1, 15, 16, 17, 31, 32, 200][i] if i < 8 else rng.randrange(0, 201)
+            ctx.check("ecies.roundtrip",
+                      {"m": common.rand_bytes(rng, ln).hex(), "sk": g_prv(rng), "eph": g_prv(rng), "other": g_prv(rng),
+                       "pk_form": rng.choice(["point", "c", "u"]), "bits": [rng.getrandbits(16) for _ in range(6)],
+                       "serving": serving})
+        if ctx.tier == "thorough" or serving:  # every single bit of one envelope
+            ctx.check("ecies.roundtrip", {"m": common.rand_bytes(rng, rng.choice([0, 5, 16])).hex(), "sk": g_prv(rng),
+                                          "eph": g_prv(rng), "other": g_prv(rng), "pk_form": "point", "bits": "all",
+                                          "serving": serving})
+        # -- ElligatorSwift
+        for _ in range(per(30, 400, serving)):
+            name = rng.choice(ELL_CURVES)
+            ec = CURVES[name]
+            ctx.check("ellswift.roundtrip", {"kind": "encode", "curve": name, "q": g_scalar(rng, ec), "serving": serving})
+        for _ in range(per(30, 400, serving)):
+            name = rng.choice(ELL_CURVES)
+            ec = CURVES[name]
+            r = rng.random()
+            ell = common.rand_bytes(rng, 2 * ec.p_size)
+            if r < 0.15:  # halves at or above p, zero halves
+                hi = (ec.p + rng.randrange(0, min(1000, 2**(8 * ec.p_size) - ec.p))).to_bytes(ec.p_size, "big")
+                ell = rng.choice([hi + ell[ec.p_size:], ell[:ec.p_size] + hi, bytes(2 * ec.p_size), hi + hi,
+                                  bytes(ec.p_size) + ell[ec.p_size:], ell[:ec.p_size] + bytes(ec.p_size)])
+            ctx.check("ellswift.roundtrip", {"kind": "decode", "curve": name, "ell": ell.hex(), "serving": serving})
+        for _ in range(per(20, 300, serving)):
+            name = rng.choice(ELL_CURVES)
+            ec = CURVES[name]
+            qa, qb = g_scalar(rng, ec), g_scalar(rng, ec)
+            with backend(serving):
+                ell_a = ellswift.create_var(qa, ec) if rng.random() < 0.5 else ellswift.encode_var(mult(qa, ec.G, ec), ec)
+                ell_b = ellswift.encode_var(mult(qb, ec.G, ec), ec)
+            ctx.check("ellswift.roundtrip", {"kind": "xdh", "curve": name, "qa": qa, "qb": qb, "qc": g_scalar(rng, ec),
+                                             "ell_a": ell_a.hex(), "ell_b": ell_b.hex(), "serving": serving})
+        # -- Pedersen
+        for _ in range(per(30, 400, serving)):
+            name = rng.choice(["secp256k1", "secp256k1", "secp256r1", "secp112r1", "secp160k1", "secp192k1"])
+            ec = CURVES[name]
+            r, v = g_scalar(rng, ec), rng.choice([0, 1, rng.getrandbits(32), rng.getrandbits(64), g_scalar(rng, ec)])
+            ctx.check("pedersen.commit_verify", {"curve": name, "r": rng.choice([r, r, r, 0]) if v else r, "v": v,
+                                                 "dr": rng.choice([1, g_scalar(rng, ec)]), "dv": rng.choice([1, g_scalar(rng, ec)]),
+                                                 "serving": serving})
+        # -- Borromean
+        for i in range(per(24, 300, serving)):
+            name = rng.choice(["secp256k1", "secp256k1", "secp256k1", "secp160k1", "secp256r1"])
+            ec = CURVES[name]
+            n_rings = (i % 4) + 1
+            rings = [[g_scalar(rng, ec) for _ in range(rng.choice([1, 2, 3, 4]))] for _ in range(n_rings)]
+            ctx.check("borromean.sign_verify",
+                      {"curve": name, "rings": rings, "idx": [rng.randrange(len(r)) for r in rings],
+                       "ks": [g_scalar(rng, ec) for _ in rings], "msg": common.rand_bytes(rng, rng.choice([0, 1, 32, 32, 50])).hex(),
+                       "msg2": common.rand_bytes(rng, 32).hex(), "alt_ring": rng.randrange(4), "alt_pos": rng.randrange(4),
+                       "delta": rng.getrandbits(64), "outsider": g_scalar(rng, ec), "serving": serving})
+        # -- silent payments
+        with backend(True if _libsecp256k1.INSTALLED else False):
+            sp_ws = [_w_sp(rng, serving, small=not serving) for _ in range(per(36, 500, serving))]
+        for w in sp_ws:
+            ctx.check("sp.sender_scanner", w)
+            ctx.count("sp.inputs", "+".join(sorted({k for k, _ in w["inputs"]})))
+            ctx.count("sp.recipients", f"{len(w['recipients'])} to {len(w['wallets'])} wallets"
+                      f"{' labelled' if any(m is not None for _r, m in w['recipients']) else ''}"
+                      f"{' repeated' if len({tuple(r) for r in w['recipients']}) < len(w['recipients']) else ''}")
+    # -- both arms on the same witness (any difference but the recorded one alarms under its own key)
+    if len(bs) > 1:
+        with backend(True):
+            ws = [_w_sp(rng, None, small=True) for _ in range(ctx.n(16, 200))]
+        for w in ws:
+            ctx.check("sp.backend_agreement", w, key="sp.sender_scanner.backend_divergence")
+    # -- vendored vectors: BIP352 send/receive, BIP324 ElligatorSwift
+    try:
+        vec = _sp_vectors()
+        for tag, serving in bs:
+            for index, case in enumerate(vec):
+                for part in ("sending", "receiving"):
+                    for i, test in enumerate(case[part]):
+                        big = len(test["given"].get("outputs", ())) > 100 or sum(
+                            r.get("count", 1) for r in test["given"].get("recipients", ())) > 100
+                        if big and not (serving and ctx.tier == "thorough"):
+                            continue  # the K_MAX cases: thousands of outputs
+                        ctx.check("sp.vectors", {"index": index, "part": part, "i": i, "serving": serving})
+    except Exception as e:  # noqa: BLE001
+        ctx.note(f"sp.vectors: BIP352 vector file not replayed: {type(e).__name__}: {e}")
+    try:
+        with open(os.path.join(_DATA, "ellswift_decode_test_vectors.csv"), encoding="utf8", newline="") as f:
+            rows = list(csv.reader(f))[1:]
+        for tag, serving in bs:
+            for ell, x, _c in rows:
+                ctx.check("ellswift.roundtrip", {"kind": "decode", "ell": ell, "x": x, "serving": serving})
+        with open(os.path.join(_DATA, "xswiftec_inv_test_vectors.csv"), encoding="utf8", newline="") as f:
+            rows = list(csv.reader(f))[1:]
+        for row in rows:
+            ctx.check("ellswift.roundtrip", {"kind": "inv", "u": int(row[0], 16), "x": int(row[1], 16),
+                                             "expect": [c or None for c in row[2:10]], "serving": False})
+    except Exception as e:  # noqa: BLE001
+        ctx.note(f"ellswift vectors not replayed: {type(e).__name__}: {e}")
+    # -- the SwiftEC map and its inverse (pure Python: one arm)
+    for _ in range(ctx.n(60, 1500)):
+        name = rng.choice(ELL_CURVES)
+        ec = CURVES[name]
+        x = mult(g_scalar(rng, ec), ec.G, ec)[0]
+        ctx.check("ellswift.roundtrip", {"kind": "inv", "curve": name, "u": rng.randrange(1, ec.p), "x": x, "serving": False})
+
+
+# ========================================================================================================
+# Silent payments (btclib/silent_payments.py, BIP352): correspondence with lean/Model/C16/SilentPayments.lean
+# through `drv_c16` (`silent`). The model transcribes the PURE-PYTHON arm; every stream runs on both arms.
+#   sp.prv_key_sum <keys>                        keys element `<prv>:<0|1>` (1 = the input spends a p2tr script)
+#   sp.input_hash <outpoints> <Ax> <Ay>          outpoints = 36-byte serialisations
+#   sp.label_tweak <b_scan> <m>
+#   sp.output_keys <keys> <outpoints> <recips>   recips element `<Bscan x>:<Bscan y>:<Bm x>:<Bm y>`
+#   sp.scan_outputs <b_scan> <Sx> <Sy> <Tx> <Ty> <outputs> <labels>     labels element `<hex33>:<tweak>`
+#   sp.scan_tx <b_scan> <Sx> <Sy> <outpoints> <pubkeys x:y> <outputs> <labels>
+#   sp.prv_key_from_tweak <b_spend> <tweak>
+# streams: one per op (from full sender -> scanner scenarios), sp.malformed, sp.scan_tx.offcurve (Python arm only:
+# the bindings arm is the recorded finding sp.scan.offcurve_backend_divergence).
+# ========================================================================================================
+_SPK_P2TR = b"\x51\x20" + bytes(32)
+_SPK_P2WPKH = b"\x00\x14" + bytes(20)
+
+
+# ---- sp: impl ------------------------------------------------------------------------------------------
+def _p_spkeys(tok):
+    out = []
+    if tok == "-":
+        return out
+    for el in tok.split(","):
+        a, f = el.split(":")
+        if f not in ("0", "1"):
+            raise ValueError("flag")
+        out.append((int(a), _SPK_P2TR if f == "1" else _SPK_P2WPKH))
+    return out
+
+
+def _p_outpoints(tok):
+    out = []
+    for ser in p_list(tok):
+        if len(ser) != 36:
+            raise ValueError("outpoint")
+        out.append(OutPoint(ser[:32][::-1], int.from_bytes(ser[32:], "little")))
+    return out
+
+
+def _p_points(tok, k=2):
+    out = []
+    if tok == "-":
+        return out
+    for el in tok.split(","):
+        v = [int(x) for x in el.split(":")]
+        if len(v) != k:
+            raise ValueError("point")
+        out.append(tuple((v[i], v[i + 1]) for i in range(0, k, 2)))
+    return out
+
+
+def _p_labels(tok):
+    if tok == "-":
+        return None
+    out = {}
+    for el in tok.split(","):
+        h, v = el.split(":")
+        out[unhx(h)] = int(v).to_bytes(32, "big")
+    return out
+
+
+def _r_found(found) -> str:
+    return ",".join(f"{hx(o.pub_key)}:{o.prv_key_tweak}" for o in found) if found else "-"
+
+
+def _impl_sp(t) -> str:  # noqa: PLR0911
+    op, a = t[0], t[1:]
+    try:
+        if op == "sp.prv_key_sum" and len(a) == 1:
+            keys = _p_spkeys(a[0])
+            return _call(lambda: str(sp.prv_key_sum(keys)))
+        if op == "sp.input_hash" and len(a) == 3:
+            ops, pt = _p_outpoints(a[0]), (int(a[1]), int(a[2]))
+            return _call(lambda: str(sp.input_hash(ops, pt)))
+        if op == "sp.label_tweak" and len(a) == 2:
+            b, m = int(a[0]), int(a[1])
+            if m < 0:
+                return "bad-op"
+            return _call(lambda: str(sp.label_tweak(b, m)))
+        if op == "sp.output_keys" and len(a) == 3:
+            keys, ops, recips = _p_spkeys(a[0]), _p_outpoints(a[1]), _p_points(a[2], 4)
+
+            def f():
+                addresses = [sp.address_from_keys(bs, bm) for bs, bm in recips]
+                return t_list(sp.output_keys(keys, ops, addresses))
+            return _call(f)
+        if op == "sp.scan_outputs" and len(a) == 7:
+            b, s, tw = int(a[0]), (int(a[1]), int(a[2])), (int(a[3]), int(a[4]))
+            outs, labels = p_list(a[5]), _p_labels(a[6])
+            return _call(lambda: _r_found(sp.scan_outputs(b, s, tw, outs, labels)))
+        if op == "sp.scan_tx" and len(a) == 7:
+            b, s, ops = int(a[0]), (int(a[1]), int(a[2])), _p_outpoints(a[3])
+            # the op line carries points only; an even-y point is handed over as a taproot input's (x-only on the
+            # bindings arm, which lifts it back to the same point), an odd-y one as a p2wpkh input's
+            pks = [(pt[0], _SPK_P2TR if pt[0][1] % 2 == 0 and pt[0][1] > 0 else _SPK_P2WPKH) for pt in _p_points(a[4], 2)]
+            outs, labels = p_list(a[5]), _p_labels(a[6])
+            return _call(lambda: _r_found(sp.scan_transaction_outputs(b, s, ops, pks, outs, labels)))
+        if op == "sp.prv_key_from_tweak" and len(a) == 2:
+            b, tw = int(a[0]), int(a[1])
+            return _call(lambda: str(sp.prv_key_from_tweak(b, tw)))
+    except (ValueError, OverflowError):  # a token that does not parse
+        return "bad-op"
+    return "bad-op"
+
+
+# ---- sp: generators/run --------------------------------------------------------------------------------
+def _t_spkeys(inputs) -> str:
+    return ",".join(f"{prv}:{1 if kind.startswith('p2tr') else 0}" for kind, prv in inputs) if inputs else "-"
+
+
+def _t_points(pts) -> str:
+    pts = list(pts)
+    return ",".join(":".join(str(c) for p in (el if isinstance(el[0], tuple) else (el,)) for c in p) for el in pts) \
+        if pts else "-"
+
+
+def _t_labels(lab) -> str:
+    return ",".join(f"{k.hex()}:{int.from_bytes(v, 'big')}" for k, v in lab.items()) if lab else "-"
+
+
+def _is_x(b: bytes) -> bool:
+    try:
+        secp256k1.y_even_var(int.from_bytes(b, "big"))
+    except Exception:  # noqa: BLE001
+        return False
+    return int.from_bytes(b, "big") < P
+
+
+def emit_sp_scenario(ctx, L: Lines, rng, w):
+    """op lines of one sender -> scanners scenario (witness of the shape _w_sp builds)"""
+    tx = _SpTx(w)
+    keys_tok = _t_spkeys(w["inputs"])
+    ops_tok = t_list(o.serialize() for o in tx.outpoints)
+    L.add(f"sp.prv_key_sum {keys_tok}")
+    a = sp.prv_key_sum(tx.prv_keys)
+    a_pt = mult(a)
+    L.add(f"sp.input_hash {ops_tok} {a_pt[0]} {a_pt[1]}")
+    recips = []
+    for addr in tx.addresses:
+        bs, bm, _net = sp.keys_from_address(addr)
+        recips.append((bs, bm))
+    L.add(f"sp.output_keys {keys_tok} {ops_tok} {_t_points(recips)}")
+    keys = tx.pay()
+    outputs = keys + [bytes.fromhex(d) for d in w["decoys"]]
+    _random.Random(w["shuffle"]).shuffle(outputs)
+    outs_tok = t_list(outputs)
+    pks_tok = _t_points(pk for pk, _spk in tx.pub_keys)  # taproot inputs: the even-y point
+    tweak = sp.tweak_data(tx.outpoints, sp.pub_key_sum([pk for pk, _ in tx.pub_keys]))
+    scanners = [(bs, bp, labels) for bs, bp, labels in tx.wallets] + [(w["stranger"], tx.wallets[0][1], tx.wallets[0][2])]
+    for b_scan, b_spend, labels in scanners:
+        ms = sorted(set(labels) | ({0} if rng.random() < 0.7 else set()))
+        for m in ms:
+            L.add(f"sp.label_tweak {b_scan} {m}")
+        lab = sp.label_lookup(b_scan, ms)
+        s_pt = mult(b_spend)
+        L.add(f"sp.scan_outputs {b_scan} {s_pt[0]} {s_pt[1]} {tweak[0]} {tweak[1]} {outs_tok} {_t_labels(lab)}")
+        L.add(f"sp.scan_tx {b_scan} {s_pt[0]} {s_pt[1]} {ops_tok} {pks_tok} {outs_tok} {_t_labels(lab)}")
+        for o in sp.scan_outputs(b_scan, s_pt, tweak, outputs, lab):
+            L.add(f"sp.prv_key_from_tweak {b_spend} {o.prv_key_tweak}")
+    ctx.count("sp.scenario", f"{len(w['inputs'])} in, {len(w['recipients'])} paid, {len(w['wallets'])} wallets")
+    return {"keys_tok": keys_tok, "ops_tok": ops_tok, "recips": recips, "outs": outputs, "pks_tok": pks_tok,
+            "tweak": tweak, "tx": tx}
+
+
+def gen_sp_malformed(ctx, rng, w):  # noqa: PLR0915
+    out, offcurve = [], []
+
+    def add(cls, line, to=None):
+        ctx.count("sp.malformed_class", cls)
+        (out if to is None else to).append(line)
+
+    tx = _SpTx(w)
+    ops_tok = t_list(o.serialize() for o in tx.outpoints)
+    keys_tok = _t_spkeys(w["inputs"])
+    d = g_prv(rng)
+    d_pt = mult(d)
+    d_even = d if d_pt[1] % 2 == 0 else N - d
+    # -- private keys
+    for v in (0, N, N + 1, -1, 2**256):
+        add("prv_range", f"sp.prv_key_sum {v}:0")
+        add("prv_range", f"sp.prv_key_sum {d}:1,{v}:1")
+        add("prv_range", f"sp.output_keys {d}:0,{v}:0 {ops_tok} {_t_points([(mult(2), mult(3))])}")
+    add("sum_zero", f"sp.prv_key_sum {d}:0,{N - d}:0")
+    add("sum_zero", f"sp.prv_key_sum {d_even}:1,{N - d_even}:0")        # taproot key even, plain key its negation
+    add("sum_zero", f"sp.prv_key_sum {N - d_even}:1,{N - d_even}:0")    # odd-y taproot key is negated: cancels its plain twin
+    add("sum_nonzero", f"sp.prv_key_sum {d_even}:1,{N - d_even}:1")      # both negated to the even one: 2*d_even
+    add("sum_nonzero", f"sp.prv_key_sum {d}:0,{d}:0")
+    add("sum_zero", f"sp.output_keys {d}:0,{N - d}:0 {ops_tok} {_t_points([(mult(2), mult(3))])}")
+    add("empty", "sp.prv_key_sum -")
+    add("empty", f"sp.output_keys - {ops_tok} {_t_points([(mult(2), mult(3))])}")
+    add("empty", f"sp.output_keys {keys_tok} - {_t_points([(mult(2), mult(3))])}")
+    add("empty", f"sp.output_keys {keys_tok} {ops_tok} -")
+    add("empty", f"sp.input_hash - {d_pt[0]} {d_pt[1]}")
+    # -- points
+    g = secp256k1.G
+    bad_pts = {"off_curve": (g[0], g[1] + 1), "infinity": (g[0], 0), "zero": (0, 0), "y_range": (g[0], g[1] + P),
+               "y_neg": (g[0], -g[1]), "x_off": (g[0] + 1, g[1])}
+    s_pt, b_scan = mult(w["wallets"][0][1]), w["wallets"][0][0]
+    tweak = sp.tweak_data(tx.outpoints, sp.pub_key_sum([pk for pk, _ in tx.pub_keys]))
+    keys = tx.pay()
+    outs_tok = t_list(keys)
+    pks_tok = _t_points(pk for pk, _spk in tx.pub_keys)
+    for name, bp in bad_pts.items():
+        add("point:" + name, f"sp.input_hash {ops_tok} {bp[0]} {bp[1]}")
+        add("point:" + name, f"sp.output_keys {keys_tok} {ops_tok} {_t_points([(bp, mult(3))])}")
+        add("point:" + name, f"sp.output_keys {keys_tok} {ops_tok} {_t_points([(mult(2), mult(3)), (mult(2), bp)])}")
+        add("point:" + name, f"sp.scan_outputs {b_scan} {bp[0]} {bp[1]} {tweak[0]} {tweak[1]} {outs_tok} -")
+        add("point:" + name, f"sp.scan_outputs {b_scan} {s_pt[0]} {s_pt[1]} {bp[0]} {bp[1]} {outs_tok} -")
+        add("point:" + name, f"sp.scan_tx {b_scan} {bp[0]} {bp[1]} {ops_tok} {pks_tok} {outs_tok} -")
+        add("point:" + name, f"sp.scan_tx {b_scan} {s_pt[0]} {s_pt[1]} {ops_tok} {_t_points([d_pt, bp])} {outs_tok} -")
+    neg = (d_pt[0], P - d_pt[1])
+    add("pubkeys_cancel", f"sp.scan_tx {b_scan} {s_pt[0]} {s_pt[1]} {ops_tok} {_t_points([d_pt, neg])} {outs_tok} -")
+    add("pubkeys_cancel", f"sp.scan_tx {b_scan} {s_pt[0]} {s_pt[1]} {ops_tok} {_t_points([d_pt, mult(5), neg, (mult(5)[0], P - mult(5)[1])])} {outs_tok} -")
+    add("empty", f"sp.scan_tx {b_scan} {s_pt[0]} {s_pt[1]} {ops_tok} - {outs_tok} -")
+    add("empty", f"sp.scan_tx {b_scan} {s_pt[0]} {s_pt[1]} - {pks_tok} {outs_tok} -")
+    # -- scan keys
+    lab = sp.label_lookup(b_scan, [0, 1])
+    for v in (0, N, -1, N + 1):
+        add("scan_key", f"sp.scan_outputs {v} {s_pt[0]} {s_pt[1]} {tweak[0]} {tweak[1]} {outs_tok} -")
+        add("scan_key", f"sp.scan_tx {v} {s_pt[0]} {s_pt[1]} {ops_tok} {pks_tok} {outs_tok} {_t_labels(lab)}")
+        add("scan_key", f"sp.label_tweak {v} 0")
+        add("scan_key", f"sp.prv_key_from_tweak {v} 5")
+        add("scan_key", f"sp.prv_key_from_tweak 5 {v}")
+    add("tweak_cancels", f"sp.prv_key_from_tweak {d} {N - d}")
+    add("tweak_wraps", f"sp.prv_key_from_tweak {N - 1} 2")
+    for m in (0, 1, 2**31, 2**32 - 1, 2**32, 2**40):
+        add("label_range", f"sp.label_tweak {b_scan} {m}")
+    # -- outputs: none, of a wrong size, no x-coordinate, the bare spend key, twice the same
+    nx = bad_x(rng)
+    for cls, outs in (("outputs:none", []), ("outputs:short", [keys[0][:31]]), ("outputs:long", keys + [keys[0] + b"\x00"]),
+                      ("outputs:empty_el", [b""] + keys), ("outputs:twice", keys + keys),
+                      ("outputs:spend_key", [s_pt[0].to_bytes(32, "big")] + keys),
+                      ("outputs:x>=p", keys + [P.to_bytes(32, "big"), b"\xff" * 32])):
+        for lb in ("-", _t_labels(lab)):
+            add(cls, f"sp.scan_outputs {b_scan} {s_pt[0]} {s_pt[1]} {tweak[0]} {tweak[1]} {t_list(outs)} {lb}")
+            to = offcurve if any(len(x) == 32 and not _is_x(x) for x in outs) else None
+            add(cls, f"sp.scan_tx {b_scan} {s_pt[0]} {s_pt[1]} {ops_tok} {pks_tok} {t_list(outs)} {lb}", to)
+    for outs in ([nx], keys + [nx], [nx] + keys, [(5).to_bytes(32, "big")], [bytes(32)] + keys):
+        for lb in ("-", _t_labels(lab)):
+            add("outputs:no_x", f"sp.scan_outputs {b_scan} {s_pt[0]} {s_pt[1]} {tweak[0]} {tweak[1]} {t_list(outs)} {lb}")
+            add("outputs:no_x", f"sp.scan_tx {b_scan} {s_pt[0]} {s_pt[1]} {ops_tok} {pks_tok} {t_list(outs)} {lb}", offcurve)
+    return out, offcurve
+
+
+def run_sp(ctx):
+    rng = ctx.rng
+    prev = _curve.is_libsecp256k1_serving()
+    try:
+        _curve.set_libsecp256k1_serving(serving=_libsecp256k1.INSTALLED)
+        L = Lines()
+        ws = [_w_sp(rng, None, small=rng.random() < 0.6) for _ in range(ctx.n(10, 250))]
+        for w in ws:
+            emit_sp_scenario(ctx, L, rng, w)
+        malformed, offcurve = gen_sp_malformed(ctx, rng, ws[0])
+    finally:
+        _curve.set_libsecp256k1_serving(serving=prev)
+    for op in sorted(L.by):
+        _stream_both(ctx, op, L.by[op])
+    _stream_both(ctx, "sp.malformed", malformed)
+    # an output that is no x-coordinate: scan_transaction_outputs' bindings arm refuses the transaction (the recorded
+    # finding sp.scan.offcurve_backend_divergence), the Python arm -- what the model transcribes -- walks past it
+    with backend(False):
+        ctx.correspond("sp.scan_tx.offcurve@python", EXE, [(ln, impl(ln)) for ln in offcurve],
+                       key="sp.scan_tx.offcurve@python")
+
+
+# ========================================================================================================
+# PSBT glue on the real code: the BIP373 roles (btclib/psbt/musig2.py) and the BIP375 roles
+# (btclib/psbt/silent_payments.py). The PSBTs are the vendored BIP373 / BIP375 vectors of /repo/tests/psbt/_data
+# re-keyed with the witness's random keys. Oracles psbt.musig2_roles, psbt.sp_roles.
+# ========================================================================================================
+import copy  # noqa: E402
+
+from btclib.hashes import tagged_hash  # noqa: E402
+from btclib.psbt import Psbt, combine as psbt_combine, extract_tx, finalize  # noqa: E402
+from btclib.psbt import musig2 as psbt_musig2  # noqa: E402
+from btclib.psbt import silent_payments as psbt_sp  # noqa: E402
+from btclib.psbt.psbt import prevouts, taproot_sig_hash  # noqa: E402
+from btclib.script.engine import verify_transaction  # noqa: E402
+from btclib.script.script_pub_key import ScriptPubKey  # noqa: E402
+from btclib.tx.tx_out import TxOut  # noqa: E402
+
+_PSBT_DATA = "/repo/tests/psbt/_data"
+_PSBT_TEMPLATES: dict = {}
+
+
+def _psbt_template(which: str) -> str:
+    if which not in _PSBT_TEMPLATES:
+        if which == "bip373":
+            with open(os.path.join(_PSBT_DATA, "bip373_test_vectors.json"), encoding="utf8") as f:
+                d = json.load(f)
+            _PSBT_TEMPLATES[which] = next(
+                v["encoded psbt"] for v in d["valid psbts"]
+                if v["description"].startswith("Spend of a Taproot output where the output key")
+                and "participant pubkeys only" in v["description"])
+        else:
+            with open(os.path.join(_PSBT_DATA, "bip375_test_vectors.json"), encoding="utf8") as f:
+                d = json.load(f)
+            _PSBT_TEMPLATES[which] = next(
+                v["psbt"] for v in d["valid"]
+                if v["description"].startswith("can finalize: two inputs single-signer using per"))
+    return _PSBT_TEMPLATES[which]
+
+
+def _travel(psbt):
+    """what a psbt is between two roles: a base64 string"""
+    return Psbt.b64decode(psbt.b64encode())
+
+
+# ---- psbt: oracles -------------------------------------------------------------------------------------
+def _o_psbt_musig2(w):  # noqa: PLR0911, PLR0912
+    prvs = w["prvs"]
+    with backend(w["serving"]):
+        try:
+            # -- Updater
+            psbt = Psbt.b64decode(_psbt_template("bip373"))
+            pin = psbt.inputs[0]
+            pin.musig2_participant_pub_keys.clear()
+            pin.taproot_hd_key_paths.clear()
+            pks = [musig2.individual_pub_key(d) for d in prvs]
+            agg = psbt_musig2.add_participant_pub_keys(pin, pks, sort=bool(w["sort"]))
+            filed = pin.musig2_participant_pub_keys[agg]
+            if filed != (musig2.key_sort(pks) if w["sort"] else pks):
+                return False, "the participants are not filed in the order they were aggregated in"
+            if agg != bytes_from_point(musig2.key_agg(filed).Q, secp256k1):
+                return False, "add_participant_pub_keys files the list under a key it does not aggregate to"
+            if w["mode"] == "internal":
+                merkle = bytes.fromhex(w["merkle"])
+                pin.taproot_internal_key = agg[1:]
+                pin.taproot_merkle_root = merkle
+                out_key = musig2.key_agg_and_tweak(filed, [tagged_hash(b"TapTweak", agg[1:] + merkle)], [True]).x_only_pub_key
+            else:
+                out_key = agg[1:]
+            pin.witness_utxo = TxOut(pin.witness_utxo.value, ScriptPubKey(b"\x51\x20" + out_key))
+            psbt.assert_valid()
+            psbt = _travel(psbt)
+            spent = prevouts(psbt)
+            # -- Signers, round 1
+            if w["combine"]:
+                copies = [copy.deepcopy(psbt) for _ in prvs]
+                secs = [psbt_musig2.nonce_gen(c, 0, d, agg) for c, d in zip(copies, prvs)]
+                psbt = psbt_combine([_travel(c) for c in copies])
+            else:
+                secs = [psbt_musig2.nonce_gen(psbt, 0, d, agg) for d in prvs]
+                psbt = _travel(psbt)
+            if len(psbt.inputs[0].musig2_pub_nonces) != len(prvs):
+                return False, f"{len(psbt.inputs[0].musig2_pub_nonces)} public nonces for {len(prvs)} signers"
+            # -- Signers, round 2
+            if w["combine"]:
+                copies = [copy.deepcopy(psbt) for _ in prvs]
+                for c, d, sn in zip(copies, prvs, secs):
+                    psbt_musig2.partial_sign(c, 0, sn, d, agg)
+                psbt = psbt_combine([_travel(c) for c in copies])
+            else:
+                for d, sn in zip(prvs, secs):
+                    psbt_musig2.partial_sign(psbt, 0, sn, d, agg)
+                psbt = _travel(psbt)
+            if any(bytes(sn[:64]) != bytes(64) for sn in secs):
+                return False, "partial_sign left a secnonce unspent"
+            for pk in pks:
+                if not psbt_musig2.partial_sig_verify(psbt, 0, pk, agg):
+                    return False, f"partial_sig_verify refuses the honest partial signature of {pk.hex()}"
+            # -- an altered partial signature is noticed by the Finalizer
+            bad = copy.deepcopy(psbt)
+            k0 = sorted(bad.inputs[0].musig2_partial_sigs)[w["alt"] % len(prvs)]
+            bad.inputs[0].musig2_partial_sigs[k0] = _flip(bad.inputs[0].musig2_partial_sigs[k0], w["bit"])
+            ok, cls = _refuses(lambda: psbt_musig2.partial_sigs_agg(bad, 0, agg))
+            if not ok:
+                return False, f"partial_sigs_agg on an altered partial signature: {cls}"
+            # -- Finalizer
+            sig = psbt_musig2.partial_sigs_agg(psbt, 0, agg)
+            msg = taproot_sig_hash(psbt, 0)
+            if not ssa.verify_(msg, out_key, sig):
+                return False, "the aggregate is not a BIP340 signature of the sighash under the taproot output key"
+            ssa.assert_as_valid_(msg, out_key, sig)
+            pin = psbt.inputs[0]
+            if pin.taproot_key_spend_signature[:64] != sig.serialize():
+                return False, "the aggregate signature is not what PSBT_IN_TAP_KEY_SIG carries"
+            if pin.musig2_pub_nonces or pin.musig2_partial_sigs:
+                return False, "the session's nonces / partial signatures survive the Finalizer"
+            tx = extract_tx(finalize(_travel(psbt)))
+            verify_transaction(spent, tx)
+        except Exception as e:  # noqa: BLE001
+            return False, f"BIP373 session raised {type(e).__name__}: {str(e)[:140]}"
+    return True, f"{len(prvs)} signers, {w['mode']} key"
+
+
+def _o_psbt_sp(w):  # noqa: PLR0911, PLR0912, PLR0915
+    with backend(w["serving"]):
+        try:
+            tmpl = Psbt.b64decode(_psbt_template("bip375"))
+            tin, tout = tmpl.inputs[0], next(o for o in tmpl.outputs if o.sp_v0_info)
+            origin = next(iter(tin.hd_key_paths.values()))
+            psbt = copy.deepcopy(tmpl)
+            psbt.inputs, psbt.outputs = [], []
+            signer_keys = []
+            for j, (kind, prv) in enumerate(w["inputs"]):
+                pin = copy.deepcopy(tin)
+                pin.partial_sigs, pin.sp_ecdh_shares, pin.sp_dleq_proofs, pin.hd_key_paths = {}, {}, {}, {}
+                pin.sig_hash_type = None
+                pt = mult(prv)
+                c = bytes_from_point(pt, secp256k1)
+                if kind == "p2tr":
+                    spk = b"\x51\x20" + c[1:]
+                    signer_keys.append(prv if pt[1] % 2 == 0 else N - prv)  # the key of the (even-y) output key
+                elif kind == "p2sh-p2wpkh":
+                    pin.redeem_script = b"\x00\x14" + hash160(c)
+                    spk = b"\xa9\x14" + hash160(pin.redeem_script) + b"\x87"
+                    pin.hd_key_paths = {c: origin}
+                    signer_keys.append(prv)
+                else:
+                    spk = b"\x00\x14" + hash160(c)
+                    pin.hd_key_paths = {c: origin}
+                    signer_keys.append(prv)
+                pin.witness_utxo = TxOut(100000, ScriptPubKey(spk))
+                pin.previous_tx_id = bytes.fromhex(w["outpoints"][j][0])
+                pin.output_index = w["outpoints"][j][1]
+                psbt.inputs.append(pin)
+            b_ms = []
+            for wi, m in w["recipients"]:
+                b_scan, b_spend, _labels = w["wallets"][wi]
+                pout = copy.deepcopy(tout)
+                bm = mult(b_spend) if m is None else secp256k1.add_var(mult(b_spend), mult(sp.label_tweak(b_scan, m)))
+                pout.script_pub_key = b""
+                pout.sp_v0_info = bytes_from_point(mult(b_scan), secp256k1) + bytes_from_point(bm, secp256k1)
+                pout.sp_v0_label = m
+                pout.amount = 1000
+                b_ms.append(bm)
+                psbt.outputs.append(pout)
+            psbt.tx_modifiable = 0b11
+            psbt.assert_valid()
+            psbt = _travel(psbt)
+            eligible = psbt_sp.eligible_pub_keys(psbt)
+            if sorted(eligible) != list(range(len(w["inputs"]))):
+                return False, f"eligible inputs {sorted(eligible)} of {len(w['inputs'])}"
+            # the Signer is held to the key of the input: the other of a taproot key's two private keys is refused
+            for j, (kind, prv) in enumerate(w["inputs"]):
+                if kind == "p2tr" and signer_keys[j] != prv:
+                    ok, cls = _refuses(lambda j=j, prv=prv: psbt_sp.set_input_share(copy.deepcopy(psbt), j, prv, bytes(32)))
+                    if not ok:
+                        return False, f"set_input_share with the odd-y private key of a taproot input: {cls}"
+            # -- Signer(s)
+            aux = bytes.fromhex(w["aux"])
+            if w["global"]:
+                psbt_sp.set_global_share(psbt, signer_keys, aux)
+            else:
+                copies = []
+                for j in range(len(w["inputs"])):
+                    c = copy.deepcopy(psbt)
+                    psbt_sp.set_input_share(c, j, signer_keys[j], aux)
+                    copies.append(_travel(c))
+                psbt = psbt_combine(copies) if len(copies) > 1 else copies[0]
+            psbt_sp.assert_shares_as_valid(psbt)
+            psbt_sp.set_output_scripts(psbt)
+            psbt = _travel(psbt)
+            # -- Extractor
+            psbt_sp.assert_as_valid(psbt)
+            scripts = [o.script_pub_key for o in psbt.outputs]
+            if any(len(s) != 34 or s[:2] != b"\x51\x20" for s in scripts):
+                return False, "an output script is not a taproot script"
+            if len(set(scripts)) != len(scripts):
+                return False, "two silent payment outputs carry the same script"
+            if psbt.tx_modifiable is not None and psbt.tx_modifiable & 0b11:
+                return False, "the psbt is still modifiable after the scripts were written"
+            # the same outputs as BIP352's sender derives (as a set: BIP375 counts k in output order)
+            prv_keys = [(prv, psbt.inputs[j].witness_utxo.script_pub_key.script) for j, (_k, prv) in enumerate(w["inputs"])
+                        if w["inputs"][j][0] != "p2sh-p2wpkh"] + \
+                       [(prv, b"\x00\x14" + bytes(20)) for (k, prv) in w["inputs"] if k == "p2sh-p2wpkh"]
+            outpoints = [pin.prev_out for pin in psbt.inputs]
+            addresses = [sp.address_from_keys(mult(w["wallets"][wi][0]), b_ms[i]) for i, (wi, _m) in enumerate(w["recipients"])]
+            if {s[2:] for s in scripts} != set(sp.output_keys(prv_keys, outpoints, addresses)):
+                return False, "the BIP375 roles and silent_payments.output_keys derive different outputs"
+            # -- every recipient's scanner finds its outputs and can spend them
+            outputs = [s[2:] for s in scripts]
+            tweak = sp.tweak_data(outpoints, sp.pub_key_sum(list(eligible.values())))
+            claimed = set()
+            for wi, (b_scan, b_spend, labels) in enumerate(w["wallets"]):
+                want = {scripts[i][2:] for i, (r, _m) in enumerate(w["recipients"]) if r == wi}
+                lab = sp.label_lookup(b_scan, sorted(set(labels) | {0}))
+                found = sp.scan_outputs(b_scan, mult(b_spend), tweak, outputs, lab)
+                if {o.pub_key for o in found} != want:
+                    return False, (f"wallet {wi} is paid {len(want)} outputs by the psbt and its scanner finds "
+                                   f"{len({o.pub_key for o in found} & want)} of them (+{len({o.pub_key for o in found} - want)})")
+                for o in found:
+                    if mult(sp.prv_key_from_tweak(b_spend, o.prv_key_tweak))[0].to_bytes(32, "big") != o.pub_key:
+                        return False, f"wallet {wi}: b_spend + tweak does not open {o.pub_key.hex()}"
+                claimed |= want
+            if claimed != set(outputs):
+                return False, "an output of the psbt is paid to no wallet"
+            # -- a share altered after the fact is refused by the Extractor
+            bad = copy.deepcopy(psbt)
+            holder = bad if w["global"] else bad.inputs[w["alt"] % len(bad.inputs)]
+            sk = sorted(holder.sp_ecdh_shares)[0]
+            other = bytes_from_point(mult(w["stranger"]), secp256k1)
+            holder.sp_ecdh_shares[sk] = other
+            ok, cls = _refuses(lambda: psbt_sp.assert_as_valid(bad))
+            if not ok:
+                return False, f"assert_as_valid on a psbt with a replaced ECDH share: {cls}"
+        except Exception as e:  # noqa: BLE001
+            return False, f"BIP375 roles raised {type(e).__name__}: {str(e)[:140]}"
+    return True, f"{len(w['inputs'])} inputs, {len(w['recipients'])} sp outputs, {'global' if w['global'] else 'per-input'} shares"
+
+
+ORACLES.update({"psbt.musig2_roles": _o_psbt_musig2, "psbt.sp_roles": _o_psbt_sp})
+
+
+# ---- psbt: generators/run ------------------------------------------------------------------------------
+def run_psbt(ctx):
+    rng = ctx.rng
+    for tag, serving in backends():
+        n = ctx.n(12, 200) if serving else max(2, ctx.n(12, 200) // 3)
+        for i in range(n):
+            k = (2, 3)[i % 2] if i < 4 else rng.choice([1, 2, 2, 3, 3, 4])
+            prvs = []
+            while len(prvs) < k:  # distinct keys: a psbt files nonces and partial signatures by participant key
+                d = g_prv(rng)
+                if d not in prvs and N - d not in prvs:
+                    prvs.append(d)
+            ctx.check("psbt.musig2_roles",
+                      {"prvs": prvs, "mode": ("output", "internal")[(i // 2) % 2] if i < 4 else rng.choice(["output", "internal"]),
+                       "merkle": rng.choice(["", common.rand_bytes(rng, 32).hex()]), "sort": rng.random() < 0.5,
+                       "combine": rng.random() < 0.5, "alt": rng.randrange(4), "bit": rng.randrange(256), "serving": serving})
+        for i in range(n):
+            w = _w_sp(rng, serving, small=True)
+            w["inputs"] = [[{"p2pkh": "p2wpkh", "p2tr-annex": "p2tr"}.get(k, k), d] for k, d in w["inputs"]]
+            w["outpoints"] = w["outpoints"][:len(w["inputs"])]
+            w.update({"global": bool(i % 2), "aux": common.rand_bytes(rng, 32).hex(), "alt": rng.randrange(4)})
+            ctx.check("psbt.sp_roles", w)
+
+
+# ---- pedersen: impl / generators/run --------------------------------------------------------------------
+# pedersen.commit <r> <v> <Hx> <Hy> -> ok <x> <y> | err runtime ; pedersen.verify <r> <v> <Cx> <Cy> <Hx> <Hy> -> ok True|False
+# (H = pedersen.second_generator(secp256k1, sha256) travels on the line for the model; the real code computes its own)
+def _impl_pedersen(t) -> str:
+    op, a = t[0], t[1:]
+    try:
+        h = pedersen.second_generator(secp256k1, sha256)
+        if op == "pedersen.commit" and len(a) == 4:
+            r, v = int(a[0]), int(a[1])
+            if (int(a[2]), int(a[3])) != h:
+                return "bad-op"
+            return _call(lambda: "{} {}".format(*pedersen.commit(r, v, secp256k1, sha256)))
+        if op == "pedersen.verify" and len(a) == 6:
+            r, v, c = int(a[0]), int(a[1]), (int(a[2]), int(a[3]))
+            if (int(a[4]), int(a[5])) != h:
+                return "bad-op"
+            return _call(lambda: "True" if pedersen.verify(r, v, c, secp256k1, sha256) else "False")
+    except ValueError:
+        return "bad-op"
+    return "bad-op"
+
+
+def run_pedersen(ctx):
+    rng = ctx.rng
+    lines = []
+    with backend(_libsecp256k1.INSTALLED):
+        h = pedersen.second_generator(secp256k1, sha256)
+        ht = f"{h[0]} {h[1]}"
+        edge = [0, 1, N - 1, N, N + 1, -1, 2**256]
+        for i in range(ctx.n(14, 300)):
+            r = rng.choice(edge) if rng.random() < 0.3 else g_prv(rng)
+            v = rng.choice(edge) if rng.random() < 0.3 else rng.choice([rng.getrandbits(32), g_prv(rng)])
+            if i == 0:
+                r, v = 0, 0
+            elif i == 1:
+                r, v = N, -N
+            lines.append(f"pedersen.commit {r} {v} {ht}")
+            try:
+                c = pedersen.commit(r, v, secp256k1, sha256)
+            except Exception:  # noqa: BLE001 - the commitment at infinity
+                c = secp256k1.G
+            alt = rng.choice([c, c, (c[0], P - c[1]), g_point(rng, secp256k1), (c[0], c[1] % P + 1), (c[0], 0), (0, 0)])
+            lines.append(f"pedersen.verify {r} {v} {alt[0]} {alt[1]} {ht}")
+            lines.append(f"pedersen.verify {rng.choice([r, r + 1, r + N, -r])} {rng.choice([v, v + 1, v - N])} {c[0]} {c[1]} {ht}")
+    _stream_both(ctx, "pedersen", lines)
+
+
 def run(ctx):
     shared.validate_hashes(ctx, EXE)
     run_musig(ctx)
+    run_twoparty(ctx)
+    run_realcode(ctx)
+    run_sp(ctx)
+    run_psbt(ctx)
+    run_pedersen(ctx)
